@@ -103,6 +103,8 @@ theorem compS_length : ∀ (s : Stmt) (ctx : Ctx) (pc cur : Nat), (compS ctx pc 
   | ev => intros; rfl
   | ret => intros; rfl
   | raise => intros; rfl
+  | reraise => intros; rfl
+  | raiseX ln fm => intro ctx pc cur; cases fm <;> rfl
   | brk => intros; rfl
   | cont ln =>
     intro ctx pc cur
@@ -137,9 +139,10 @@ def ContAt (ctx : Ctx) (vm : VM W) : Prop :=
 /-- State reached by the code of a statement that was entered with value stack `st` and block
 stack `bs`, for each outcome of the statement: falls through to `endpc`, or the reason is pending
 with the block stack of the statement's context (values above `st` may be left for the enclosing
-block to cut away). -/
-def Post (ctx : Ctx) (endpc : Nat) (st : List Val) (bs : List Block) (o : Outcome) (w' : W) (vm : VM W) : Prop :=
-  vm.world = w' ∧ vm.blocks = bs ∧
+block to cut away).  In every case the handled exception `vm.exc` is `ex`, the one in force when the
+statement was entered: whatever handlers were entered inside the statement have been left again. -/
+def Post (ctx : Ctx) (endpc : Nat) (st : List Val) (bs : List Block) (ex : ExcInfo) (o : Outcome) (w' : W) (vm : VM W) : Prop :=
+  vm.world = w' ∧ vm.blocks = bs ∧ vm.exc = ex ∧
   match o with
   | .normal => vm.why = .not ∧ vm.pc = endpc ∧ vm.stack = st ∧ vm.curexc = {}
   | .brk => vm.why = .brk ∧ hasLoop ctx = true ∧ vm.curexc = {} ∧ ∃ junk, vm.stack = junk ++ st
@@ -147,8 +150,8 @@ def Post (ctx : Ctx) (endpc : Nat) (st : List Val) (bs : List Block) (o : Outcom
   | .ret v => vm.why = .ret ∧ vm.retval = .int v ∧ vm.curexc = {} ∧ ∃ junk, vm.stack = junk ++ st
   | .exc c ln => vm.why = .exception ∧ vm.curexc = ⟨some c, .excv c, some [ln]⟩ ∧ ∃ junk, vm.stack = junk ++ st
 
-theorem Post.mono {ctx : Ctx} {e1 e2 : Nat} {st : List Val} {bs : List Block} {o : Outcome} {w' : W} {vm : VM W}
-    (hn : o ≠ .normal) (h : Post ctx e1 st bs o w' vm) : Post ctx e2 st bs o w' vm := by
+theorem Post.mono {ctx : Ctx} {e1 e2 : Nat} {st : List Val} {bs : List Block} {ex : ExcInfo} {o : Outcome} {w' : W} {vm : VM W}
+    (hn : o ≠ .normal) (h : Post ctx e1 st bs ex o w' vm) : Post ctx e2 st bs ex o w' vm := by
   cases o with
   | normal => exact absurd rfl hn
   | _ => exact h
@@ -167,7 +170,7 @@ theorem unwindBlock_junk (junk st : List Val) : unwindBlock st.length (junk ++ s
 
 /-- which statements the simulation proof covers (all of them: `Cov_all`) -/
 def Cov : Stmt → Bool
-  | .skip | .pass _ | .ev _ _ | .ret _ _ | .raise _ _ | .brk _ | .cont _ => true
+  | .skip | .pass _ | .ev _ _ | .ret _ _ | .raise _ _ | .brk _ | .cont _ | .reraise _ | .raiseX _ _ => true
   | .seq a b => Cov a && Cov b
   | .ifS _ _ b o => Cov b && Cov o
   | .whileS _ _ b o => Cov b && Cov o
@@ -178,30 +181,30 @@ def Cov : Stmt → Bool
 
 /-- simulation statement for statements -/
 def SimS (P : Prims W) (code : Code) (fuel : Nat) : Prop :=
-  ∀ (s : Stmt) (w w' : W) (o : Outcome), execT P fuel (.run s) w = some (w', o) → Cov s = true →
-  ∀ (ctx : Ctx) (pc cur : Nat) (st : List Val) (bs : List Block) (rv : Val) (ex : ExcInfo),
+  ∀ (s : Stmt) (w w' : W) (o : Outcome) (hd : Handled), execT P fuel (.run s) w hd = some (w', o) → Cov s = true →
+  ∀ (ctx : Ctx) (pc cur : Nat) (st : List Val) (bs : List Block) (rv : Val) (ex : ExcInfo), ex = hdInfo hd →
     compErr ctx pc s = none → CodeAt code pc (compS ctx pc cur s) → CtxInv ctx bs →
-    ∃ vm', Reach P code ⟨pc, st, bs, .not, rv, {}, ex, w⟩ vm' ∧ Post ctx (pc + len s) st bs o w' vm'
+    ∃ vm', Reach P code ⟨pc, st, bs, .not, rv, {}, ex, w⟩ vm' ∧ Post ctx (pc + len s) st bs ex o w' vm'
 
 /-- simulation statement for a `while` loop entered at its head (loop block already pushed) -/
 def SimW (P : Prims W) (code : Code) (fuel : Nat) : Prop :=
-  ∀ (ln i : Nat) (b o : Stmt) (w w' : W) (out : Outcome),
-  execT P fuel (.run (.whileS ln i b o)) w = some (w', out) → Cov b = true → Cov o = true →
-  ∀ (ctx : Ctx) (pc cur : Nat) (st : List Val) (bs : List Block) (rv : Val) (ex : ExcInfo),
+  ∀ (ln i : Nat) (b o : Stmt) (w w' : W) (out : Outcome) (hd : Handled),
+  execT P fuel (.run (.whileS ln i b o)) w hd = some (w', out) → Cov b = true → Cov o = true →
+  ∀ (ctx : Ctx) (pc cur : Nat) (st : List Val) (bs : List Block) (rv : Val) (ex : ExcInfo), ex = hdInfo hd →
     compErr ctx pc (.whileS ln i b o) = none → CodeAt code pc (compS ctx pc cur (.whileS ln i b o)) → CtxInv ctx bs →
     ∃ vm', Reach P code ⟨pc + 1, st, ⟨.loop, ((pc + 5 + len b + 1 + 1 + len o : Nat) : Int), st.length⟩ :: bs,
                           .not, rv, {}, ex, w⟩ vm' ∧
-      Post ctx (pc + len (.whileS ln i b o)) st bs out w' vm'
+      Post ctx (pc + len (.whileS ln i b o)) st bs ex out w' vm'
 
 /-- simulation statement for a `for` loop at its `FOR_ITER` (loop block pushed, iterator on the stack) -/
 def SimF (P : Prims W) (code : Code) (fuel : Nat) : Prop :=
-  ∀ (ln i h : Nat) (b o : Stmt) (w w' : W) (out : Outcome),
-  execT P fuel (.forLoop h b o) w = some (w', out) → Cov b = true → Cov o = true →
-  ∀ (ctx : Ctx) (pc cur : Nat) (st : List Val) (bs : List Block) (rv : Val) (ex : ExcInfo),
+  ∀ (ln i h : Nat) (b o : Stmt) (w w' : W) (out : Outcome) (hd : Handled),
+  execT P fuel (.forLoop h b o) w hd = some (w', out) → Cov b = true → Cov o = true →
+  ∀ (ctx : Ctx) (pc cur : Nat) (st : List Val) (bs : List Block) (rv : Val) (ex : ExcInfo), ex = hdInfo hd →
     compErr ctx pc (.forS ln i b o) = none → CodeAt code pc (compS ctx pc cur (.forS ln i b o)) → CtxInv ctx bs →
     ∃ vm', Reach P code ⟨pc + 5, .iter h :: st, ⟨.loop, ((pc + 7 + len b + 1 + 1 + len o : Nat) : Int), st.length⟩ :: bs,
                           .not, rv, {}, ex, w⟩ vm' ∧
-      Post ctx (pc + len (.forS ln i b o)) st bs out w' vm'
+      Post ctx (pc + len (.forS ln i b o)) st bs ex out w' vm'
 
 theorem orElse_none {α} {a : Option α} {f : Unit → Option α} (h : a.orElse f = none) : a = none ∧ f () = none := by
   cases a with
@@ -224,11 +227,11 @@ theorem callProbe_at {code : Code} {pc : Nat} {f : Fn} {i ln : Nat} {rest : Code
   exact ⟨h0, h1, h2, h3⟩
 
 theorem sim_simple (P : Prims W) (code : Code) (f : Nat) (s : Stmt)
-    (hs : match s with | .skip | .pass _ | .ev _ _ | .ret _ _ | .raise _ _ | .brk _ | .cont _ => True | _ => False)
-    (w w' : W) (o : Outcome) (h : execT P (f+1) (.run s) w = some (w', o))
-    (ctx : Ctx) (pc cur : Nat) (st : List Val) (bs : List Block) (rv : Val) (ex : ExcInfo)
+    (hs : match s with | .skip | .pass _ | .ev _ _ | .ret _ _ | .raise _ _ | .brk _ | .cont _ | .reraise _ | .raiseX _ _ => True | _ => False)
+    (w w' : W) (o : Outcome) (hd : Handled) (h : execT P (f+1) (.run s) w hd = some (w', o))
+    (ctx : Ctx) (pc cur : Nat) (st : List Val) (bs : List Block) (rv : Val) (ex : ExcInfo) (hex : ex = hdInfo hd)
     (hce : compErr ctx pc s = none) (hc : CodeAt code pc (compS ctx pc cur s)) :
-    ∃ vm', Reach P code ⟨pc, st, bs, .not, rv, {}, ex, w⟩ vm' ∧ Post ctx (pc + len s) st bs o w' vm' := by
+    ∃ vm', Reach P code ⟨pc, st, bs, .not, rv, {}, ex, w⟩ vm' ∧ Post ctx (pc + len s) st bs ex o w' vm' := by
   cases s with
   | skip =>
     simp only [execT, Option.some.injEq, Prod.mk.injEq] at h
@@ -371,53 +374,122 @@ theorem sim_simple (P : Prims W) (code : Code) (f : Nat) (s : Stmt)
           · vstep h0
             exact Reach.refl _
           · simp [Post, ContAt, findLoop, hf]
+  | reraise ln =>
+    simp only [compS] at hc
+    have h0 := hc.nth 0 (by simp)
+    simp only [List.getElem_cons_zero] at h0
+    unfold execT at h
+    simp only at h
+    cases hd with
+    | none =>
+      simp only [Option.some.injEq, Prod.mk.injEq] at h
+      obtain ⟨rfl, rfl⟩ := h
+      subst hex
+      refine ⟨?_, ?_, ?_⟩
+      rotate_left
+      · vstepx [hdInfo, ExcInfo.isSet] h0
+        exact Reach.refl _
+      · simp [Post, raiseAt, hdInfo]
+    | some p =>
+      obtain ⟨c, l⟩ := p
+      simp only [Option.some.injEq, Prod.mk.injEq] at h
+      obtain ⟨rfl, rfl⟩ := h
+      subst hex
+      refine ⟨?_, ?_, ?_⟩
+      rotate_left
+      · vstepx [hdInfo, ExcInfo.isSet] h0
+        exact Reach.refl _
+      · simp [Post, hdInfo]
+  | raiseX ln fm =>
+    simp only [execT, Option.some.injEq, Prod.mk.injEq] at h
+    obtain ⟨rfl, rfl⟩ := h
+    cases fm with
+    | inst c k =>
+      simp only [compS] at hc
+      have h0 := hc.nth 0 (by simp)
+      have h1 := hc.nth 1 (by simp)
+      have h2 := hc.nth 2 (by simp)
+      have h3 := hc.nth 3 (by simp)
+      simp only [List.getElem_cons_zero, List.getElem_cons_succ] at h0 h1 h2 h3
+      refine ⟨?_, ?_, ?_⟩
+      rotate_left
+      · vstep h0
+        vstep h1
+        vstepx [] h2
+        vstepx [] h3
+        exact Reach.refl _
+      · simp [Post, raiseAt, RaiseForm.cls]
+    | «from» c d =>
+      simp only [compS] at hc
+      have h0 := hc.nth 0 (by simp)
+      have h1 := hc.nth 1 (by simp)
+      have h2 := hc.nth 2 (by simp)
+      simp only [List.getElem_cons_zero, List.getElem_cons_succ] at h0 h1 h2
+      refine ⟨?_, ?_, ?_⟩
+      rotate_left
+      · vstep h0
+        vstep h1
+        vstepx [raisable] h2
+        exact Reach.refl _
+      · simp [Post, raiseAt, RaiseForm.cls]
+    | nonExc k =>
+      simp only [compS] at hc
+      have h0 := hc.nth 0 (by simp)
+      have h1 := hc.nth 1 (by simp)
+      simp only [List.getElem_cons_zero, List.getElem_cons_succ] at h0 h1
+      refine ⟨?_, ?_, ?_⟩
+      rotate_left
+      · vstep h0
+        vstepx [] h1
+        exact Reach.refl _
+      · simp [Post, raiseAt, RaiseForm.cls]
   | _ => exact absurd hs (by simp)
 
 /-- destructure a state that satisfies `Post .. normal` -/
-theorem Post.normal_eq {ctx : Ctx} {e : Nat} {st : List Val} {bs : List Block} {w' : W} {vm : VM W}
-    (h : Post ctx e st bs .normal w' vm) : ∃ rv ex, vm = ⟨e, st, bs, .not, rv, {}, ex, w'⟩ := by
+theorem Post.normal_eq {ctx : Ctx} {e : Nat} {st : List Val} {bs : List Block} {ex : ExcInfo} {w' : W} {vm : VM W}
+    (h : Post ctx e st bs ex .normal w' vm) : ∃ rv, vm = ⟨e, st, bs, .not, rv, {}, ex, w'⟩ := by
   obtain ⟨pc1, st1, bs1, why1, rv1, cur1, ex1, ww1⟩ := vm
   simp only [Post] at h
-  obtain ⟨rfl, rfl, rfl, rfl, rfl, rfl⟩ := h
-  exact ⟨rv1, ex1, rfl⟩
+  obtain ⟨rfl, rfl, rfl, rfl, rfl, rfl, rfl⟩ := h
+  exact ⟨rv1, rfl⟩
 
-theorem Post.cont_loop_eq {ctx : Ctx} {s e : Nat} {st : List Val} {bs : List Block} {w' : W} {vm : VM W}
-    (h : Post (.loop s :: ctx) e st bs .cont w' vm) : ∃ rv ex, vm = ⟨s, st, bs, .not, rv, {}, ex, w'⟩ := by
+theorem Post.cont_loop_eq {ctx : Ctx} {s e : Nat} {st : List Val} {bs : List Block} {ex : ExcInfo} {w' : W} {vm : VM W}
+    (h : Post (.loop s :: ctx) e st bs ex .cont w' vm) : ∃ rv, vm = ⟨s, st, bs, .not, rv, {}, ex, w'⟩ := by
   obtain ⟨pc1, st1, bs1, why1, rv1, cur1, ex1, ww1⟩ := vm
   simp only [Post, ContAt] at h
-  obtain ⟨rfl, rfl, rfl, rfl, rfl, rfl⟩ := h
-  exact ⟨rv1, ex1, rfl⟩
+  obtain ⟨rfl, rfl, rfl, rfl, rfl, rfl, rfl⟩ := h
+  exact ⟨rv1, rfl⟩
 
-theorem Post.brk_eq {ctx : Ctx} {e : Nat} {st : List Val} {bs : List Block} {w' : W} {vm : VM W}
-    (h : Post ctx e st bs .brk w' vm) :
-    hasLoop ctx = true ∧ ∃ pc junk rv ex, vm = ⟨pc, junk ++ st, bs, .brk, rv, {}, ex, w'⟩ := by
+theorem Post.brk_eq {ctx : Ctx} {e : Nat} {st : List Val} {bs : List Block} {ex : ExcInfo} {w' : W} {vm : VM W}
+    (h : Post ctx e st bs ex .brk w' vm) :
+    hasLoop ctx = true ∧ ∃ pc junk rv, vm = ⟨pc, junk ++ st, bs, .brk, rv, {}, ex, w'⟩ := by
   obtain ⟨pc1, st1, bs1, why1, rv1, cur1, ex1, ww1⟩ := vm
   simp only [Post] at h
-  obtain ⟨rfl, rfl, rfl, hl, rfl, ⟨junk, rfl⟩⟩ := h
-  exact ⟨hl, pc1, junk, rv1, ex1, rfl⟩
+  obtain ⟨rfl, rfl, rfl, rfl, hl, rfl, ⟨junk, rfl⟩⟩ := h
+  exact ⟨hl, pc1, junk, rv1, rfl⟩
 
-theorem Post.ret_eq {ctx : Ctx} {e : Nat} {st : List Val} {bs : List Block} {w' : W} {vm : VM W} {v : Int}
-    (h : Post ctx e st bs (.ret v) w' vm) :
-    ∃ pc junk ex, vm = ⟨pc, junk ++ st, bs, .ret, .int v, {}, ex, w'⟩ := by
+theorem Post.ret_eq {ctx : Ctx} {e : Nat} {st : List Val} {bs : List Block} {ex : ExcInfo} {w' : W} {vm : VM W} {v : Int}
+    (h : Post ctx e st bs ex (.ret v) w' vm) :
+    ∃ pc junk, vm = ⟨pc, junk ++ st, bs, .ret, .int v, {}, ex, w'⟩ := by
+  obtain ⟨pc1, st1, bs1, why1, rv1, cur1, ex1, ww1⟩ := vm
+  simp only [Post] at h
+  obtain ⟨rfl, rfl, rfl, rfl, rfl, rfl, ⟨junk, rfl⟩⟩ := h
+  exact ⟨pc1, junk, rfl⟩
+
+theorem Post.exc_eq {ctx : Ctx} {e : Nat} {st : List Val} {bs : List Block} {ex : ExcInfo} {w' : W} {vm : VM W} {c : Cls} {l : Nat}
+    (h : Post ctx e st bs ex (.exc c l) w' vm) :
+    ∃ pc junk rv, vm = ⟨pc, junk ++ st, bs, .exception, rv, ⟨some c, .excv c, some [l]⟩, ex, w'⟩ := by
   obtain ⟨pc1, st1, bs1, why1, rv1, cur1, ex1, ww1⟩ := vm
   simp only [Post] at h
   obtain ⟨rfl, rfl, rfl, rfl, rfl, ⟨junk, rfl⟩⟩ := h
-  exact ⟨pc1, junk, ex1, rfl⟩
-
-theorem Post.exc_eq {ctx : Ctx} {e : Nat} {st : List Val} {bs : List Block} {w' : W} {vm : VM W} {c : Cls} {l : Nat}
-    (h : Post ctx e st bs (.exc c l) w' vm) :
-    ∃ pc junk rv ex, vm = ⟨pc, junk ++ st, bs, .exception, rv, ⟨some c, .excv c, some [l]⟩, ex, w'⟩ := by
-  obtain ⟨pc1, st1, bs1, why1, rv1, cur1, ex1, ww1⟩ := vm
-  simp only [Post] at h
-  obtain ⟨rfl, rfl, rfl, rfl, ⟨junk, rfl⟩⟩ := h
-  exact ⟨pc1, junk, rv1, ex1, rfl⟩
+  exact ⟨pc1, junk, rv1, rfl⟩
 
 
 theorem sim_seq (P : Prims W) (code : Code) (f : Nat) (ihS : SimS P code f) (a b : Stmt)
-    (w w' : W) (o : Outcome) (h : execT P (f+1) (.run (.seq a b)) w = some (w', o)) (hcov : Cov (.seq a b) = true)
-    (ctx : Ctx) (pc cur : Nat) (st : List Val) (bs : List Block) (rv : Val) (ex : ExcInfo)
+    (w w' : W) (o : Outcome) (hd : Handled) (h : execT P (f+1) (.run (.seq a b)) w hd = some (w', o)) (hcov : Cov (.seq a b) = true)
+    (ctx : Ctx) (pc cur : Nat) (st : List Val) (bs : List Block) (rv : Val) (ex : ExcInfo) (hex : ex = hdInfo hd)
     (hce : compErr ctx pc (.seq a b) = none) (hc : CodeAt code pc (compS ctx pc cur (.seq a b))) (hinv : CtxInv ctx bs) :
-    ∃ vm', Reach P code ⟨pc, st, bs, .not, rv, {}, ex, w⟩ vm' ∧ Post ctx (pc + len (.seq a b)) st bs o w' vm' := by
+    ∃ vm', Reach P code ⟨pc, st, bs, .not, rv, {}, ex, w⟩ vm' ∧ Post ctx (pc + len (.seq a b)) st bs ex o w' vm' := by
   simp only [Cov, Bool.and_eq_true] at hcov
   simp only [compErr] at hce
   obtain ⟨hca, hcb⟩ := orElse_none hce
@@ -427,17 +499,17 @@ theorem sim_seq (P : Prims W) (code : Code) (f : Nat) (ihS : SimS P code f) (a b
   rw [compS_length] at hB
   unfold execT at h
   simp only at h
-  cases ha : execT P f (.run a) w with
+  cases ha : execT P f (.run a) w hd with
   | none => rw [ha] at h; simp at h
   | some r =>
     obtain ⟨w1, o1⟩ := r
     rw [ha] at h
-    obtain ⟨vm1, hr1, hp1⟩ := ihS a w w1 o1 ha hcov.1 ctx pc cur st bs rv ex hca hA hinv
+    obtain ⟨vm1, hr1, hp1⟩ := ihS a w w1 o1 hd ha hcov.1 ctx pc cur st bs rv ex hex hca hA hinv
     cases o1 with
     | normal =>
       simp only at h
-      obtain ⟨rv1, ex1, rfl⟩ := hp1.normal_eq
-      obtain ⟨vm2, hr2, hp2⟩ := ihS b w1 w' o h hcov.2 ctx (pc + len a) (endLine cur a) st bs rv1 ex1 hcb hB hinv
+      obtain ⟨rv1, rfl⟩ := hp1.normal_eq
+      obtain ⟨vm2, hr2, hp2⟩ := ihS b w1 w' o hd h hcov.2 ctx (pc + len a) (endLine cur a) st bs rv1 ex hex hcb hB hinv
       refine ⟨vm2, hr1.trans hr2, ?_⟩
       simpa [len, Nat.add_assoc] using hp2
     | brk | cont | ret _ | exc _ _ =>
@@ -446,10 +518,10 @@ theorem sim_seq (P : Prims W) (code : Code) (f : Nat) (ihS : SimS P code f) (a b
       exact ⟨vm1, hr1, hp1.mono (by simp)⟩
 
 theorem sim_if (P : Prims W) (code : Code) (f : Nat) (ihS : SimS P code f) (ln i : Nat) (b o' : Stmt)
-    (w w' : W) (o : Outcome) (h : execT P (f+1) (.run (.ifS ln i b o')) w = some (w', o)) (hcov : Cov (.ifS ln i b o') = true)
-    (ctx : Ctx) (pc cur : Nat) (st : List Val) (bs : List Block) (rv : Val) (ex : ExcInfo)
+    (w w' : W) (o : Outcome) (hd : Handled) (h : execT P (f+1) (.run (.ifS ln i b o')) w hd = some (w', o)) (hcov : Cov (.ifS ln i b o') = true)
+    (ctx : Ctx) (pc cur : Nat) (st : List Val) (bs : List Block) (rv : Val) (ex : ExcInfo) (hex : ex = hdInfo hd)
     (hce : compErr ctx pc (.ifS ln i b o') = none) (hc : CodeAt code pc (compS ctx pc cur (.ifS ln i b o'))) (hinv : CtxInv ctx bs) :
-    ∃ vm', Reach P code ⟨pc, st, bs, .not, rv, {}, ex, w⟩ vm' ∧ Post ctx (pc + len (.ifS ln i b o')) st bs o w' vm' := by
+    ∃ vm', Reach P code ⟨pc, st, bs, .not, rv, {}, ex, w⟩ vm' ∧ Post ctx (pc + len (.ifS ln i b o')) st bs ex o w' vm' := by
   simp only [Cov, Bool.and_eq_true] at hcov
   simp only [compErr] at hce
   obtain ⟨hcb, hco⟩ := orElse_none hce
@@ -484,7 +556,7 @@ theorem sim_if (P : Prims W) (code : Code) (f : Nat) (ihS : SimS P code f) (ln i
       simp only at h
       by_cases hv : v = 0
       · simp only [hv, ne_eq, not_true_eq_false, if_false] at h
-        obtain ⟨vm2, hr2, hp2⟩ := ihS o' w1 w' o h hcov.2 ctx (pc + 3 + 1 + len b + 1) (endLine ln b) st bs rv ex hco
+        obtain ⟨vm2, hr2, hp2⟩ := ihS o' w1 w' o hd h hcov.2 ctx (pc + 3 + 1 + len b + 1) (endLine ln b) st bs rv ex hex hco
           (hO.cast (by omega)) hinv
         refine ⟨vm2, ?_, ?_⟩
         · vstep h0
@@ -497,7 +569,7 @@ theorem sim_if (P : Prims W) (code : Code) (f : Nat) (ihS : SimS P code f) (ln i
         · have e : pc + 3 + 1 + len b + 1 + len o' = pc + len (.ifS ln i b o') := by simp [len]; omega
           rw [← e]; exact hp2
       · simp only [ne_eq, hv, not_false_eq_true, if_true] at h
-        obtain ⟨vm2, hr2, hp2⟩ := ihS b w1 w' o h hcov.1 ctx (pc + 3 + 1) ln st bs rv ex hcb hB hinv
+        obtain ⟨vm2, hr2, hp2⟩ := ihS b w1 w' o hd h hcov.1 ctx (pc + 3 + 1) ln st bs rv ex hex hcb hB hinv
         have hpre : Reach P code ⟨pc, st, bs, .not, rv, {}, ex, w⟩ vm2 := by
           vstep h0
           vstep h1
@@ -506,7 +578,7 @@ theorem sim_if (P : Prims W) (code : Code) (f : Nat) (ihS : SimS P code f) (ln i
           exact hr2
         cases o with
         | normal =>
-          obtain ⟨rv2, ex2, rfl⟩ := hp2.normal_eq
+          obtain ⟨rv2, rfl⟩ := hp2.normal_eq
           refine ⟨?_, ?_, ?_⟩
           rotate_left
           · refine hpre.trans ?_
@@ -551,27 +623,49 @@ theorem handler_entry {P : Prims W} {code : Code} {pc : Nat} {junk st : List Val
   refine Reach.resume (b := ⟨k, (h : Int), st.length⟩) (bs := bs) (by simp) rfl ?_ (Reach.refl _)
   rcases hk with rfl | rfl <;> simp [unwind1, unwindBlock_junk]
 
-/-- a pending reason pops an EXCEPT_HANDLER block: the three saved values and everything above go -/
+theorem cut_junk (junk st : List Val) : cut st.length (junk ++ st) = st := by
+  unfold cut cutTo
+  rw [List.length_append]
+  have : junk.length + st.length - st.length = junk.length := by omega
+  rw [this, List.drop_left]
+
+theorem savedAt_junk (junk : List Val) (a b c : Val) (st : List Val) :
+    savedAt st.length (junk ++ a :: b :: c :: st) = savedOf a b c := by
+  unfold savedAt
+  have h := cut_junk junk (a :: b :: c :: st)
+  unfold cut at h
+  simp only [List.length_cons] at h
+  rw [h]
+
+theorem unwindExceptHandler_junk (junk : List Val) (a b c : Val) (st : List Val) :
+    unwindExceptHandler st.length (junk ++ a :: b :: c :: st) = some (st, savedOf a b c) := by
+  have hlen : st.length + 3 ≤ (junk ++ a :: b :: c :: st).length := by simp
+  have he := unwindExceptHandler_ok hlen
+  rw [savedAt_junk] at he
+  have : junk ++ a :: b :: c :: st = (junk ++ [a, b, c]) ++ st := by simp
+  rw [this, cut_junk] at he
+  rw [this]
+  exact he
+
+/-- `Post` for the handled exception restored from the three values pushed on handler entry -/
+theorem Post.saved {ctx : Ctx} {e : Nat} {st : List Val} {bs : List Block} {ex : ExcInfo} {o : Outcome} {w' : W} {vm : VM W}
+    (h : Post ctx e st bs (savedOf (typeVal ex.type) ex.value (.tb ex.tb)) o w' vm) : Post ctx e st bs ex o w' vm := by
+  rwa [savedOf_typeVal] at h
+
+/-- a pending reason pops an EXCEPT_HANDLER block: the three saved values and everything above go,
+and the handled exception is again the one that was saved when the handler was entered -/
 theorem handler_passes {P : Prims W} {code : Code} {pc : Nat} {junk st : List Val} {a b c : Val} {bs : List Block}
     {why : Why} (hw : why ≠ .not) {rv : Val} {cur ex : ExcInfo} {w : W} :
-    ∃ e, Reach P code ⟨pc, junk ++ a :: b :: c :: st, ⟨.handler, -1, st.length⟩ :: bs, why, rv, cur, ex, w⟩
-      ⟨pc, st, bs, why, rv, cur, e, w⟩ := by
-  have hlen : st.length + 3 ≤ (junk ++ a :: b :: c :: st).length := by simp
-  obtain ⟨e, he⟩ := unwindExceptHandler_ok hlen
-  have hcut : cut st.length (junk ++ a :: b :: c :: st) = st := by
-    have : junk ++ a :: b :: c :: st = (junk ++ [a, b, c]) ++ st := by simp
-    rw [this]; unfold cut cutTo; rw [List.length_append]
-    have : (junk ++ [a, b, c]).length + st.length - st.length = (junk ++ [a, b, c]).length := by omega
-    rw [this, List.drop_left]
-  rw [hcut] at he
-  refine ⟨e, Reach.again (b := ⟨.handler, -1, st.length⟩) (bs := bs) hw rfl ?_ (Reach.refl _)⟩
+    Reach P code ⟨pc, junk ++ a :: b :: c :: st, ⟨.handler, -1, st.length⟩ :: bs, why, rv, cur, ex, w⟩
+      ⟨pc, st, bs, why, rv, cur, savedOf a b c, w⟩ := by
+  have he := unwindExceptHandler_junk junk a b c st
+  refine Reach.again (b := ⟨.handler, -1, st.length⟩) (bs := bs) hw rfl ?_ (Reach.refl _)
   cases why <;> simp [unwind1, he] at hw ⊢
-
 /-- a pending `continue` that has come down to the statement's own context -/
 theorem cont_settle {P : Prims W} {code : Code} {ctx : Ctx} {x : Loop} (hx : x = .finallyTry ∨ x = .except)
     {pc s e : Nat} {st : List Val} {bs : List Block} {ex : ExcInfo} {w : W}
     (hf : findLoop (x :: ctx) = some s) (hinv : CtxInv ctx bs) :
-    ∃ vm', Reach P code ⟨pc, st, bs, .cont, .int s, {}, ex, w⟩ vm' ∧ Post ctx e st bs .cont w vm' := by
+    ∃ vm', Reach P code ⟨pc, st, bs, .cont, .int s, {}, ex, w⟩ vm' ∧ Post ctx e st bs ex .cont w vm' := by
   have hf' : findLoop ctx = some s := by rcases hx with rfl | rfl <;> simpa [findLoop] using hf
   match ctx, hf', hinv with
   | [], hf', _ => simp [findLoop] at hf'
@@ -593,58 +687,58 @@ def Abrupt : Outcome → Prop
   | _ => False
 
 /-- an abrupt outcome seen with extra values `X` on the stack is the same outcome for the enclosing statement -/
-theorem Post.weaken {ctx1 ctx2 : Ctx} {e1 e2 : Nat} {X st : List Val} {bs : List Block} {o : Outcome} {w' : W} {vm : VM W}
+theorem Post.weaken {ctx1 ctx2 : Ctx} {e1 e2 : Nat} {X st : List Val} {bs : List Block} {ex : ExcInfo} {o : Outcome} {w' : W} {vm : VM W}
     (hl : hasLoop ctx1 = hasLoop ctx2) (ho : Abrupt o)
-    (h : Post ctx1 e1 (X ++ st) bs o w' vm) : Post ctx2 e2 st bs o w' vm := by
+    (h : Post ctx1 e1 (X ++ st) bs ex o w' vm) : Post ctx2 e2 st bs ex o w' vm := by
   cases o with
   | normal => exact absurd ho (by simp [Abrupt])
   | cont => exact absurd ho (by simp [Abrupt])
   | brk =>
     simp only [Post] at h ⊢
-    obtain ⟨h1, h2, h3, h4, h5, ⟨junk, h6⟩⟩ := h
-    exact ⟨h1, h2, h3, hl ▸ h4, h5, ⟨junk ++ X, by rw [h6, List.append_assoc]⟩⟩
+    obtain ⟨h1, h2, hx, h3, h4, h5, ⟨junk, h6⟩⟩ := h
+    exact ⟨h1, h2, hx, h3, hl ▸ h4, h5, ⟨junk ++ X, by rw [h6, List.append_assoc]⟩⟩
   | ret v =>
     simp only [Post] at h ⊢
-    obtain ⟨h1, h2, h3, h4, h5, ⟨junk, h6⟩⟩ := h
-    exact ⟨h1, h2, h3, h4, h5, ⟨junk ++ X, by rw [h6, List.append_assoc]⟩⟩
+    obtain ⟨h1, h2, hx, h3, h4, h5, ⟨junk, h6⟩⟩ := h
+    exact ⟨h1, h2, hx, h3, h4, h5, ⟨junk ++ X, by rw [h6, List.append_assoc]⟩⟩
   | exc c l =>
     simp only [Post] at h ⊢
-    obtain ⟨h1, h2, h3, h4, ⟨junk, h6⟩⟩ := h
-    exact ⟨h1, h2, h3, h4, ⟨junk ++ X, by rw [h6, List.append_assoc]⟩⟩
+    obtain ⟨h1, h2, hx, h3, h4, ⟨junk, h6⟩⟩ := h
+    exact ⟨h1, h2, hx, h3, h4, ⟨junk ++ X, by rw [h6, List.append_assoc]⟩⟩
 
 /-- no `continue` comes out of a `finally` body -/
-theorem Post.no_cont_in_finally {ctx : Ctx} {e : Nat} {st : List Val} {bs : List Block} {w' : W} {vm : VM W}
-    (h : Post (.finallyEnd :: ctx) e st bs .cont w' vm) : False := by
+theorem Post.no_cont_in_finally {ctx : Ctx} {e : Nat} {st : List Val} {bs : List Block} {ex : ExcInfo} {w' : W} {vm : VM W}
+    (h : Post (.finallyEnd :: ctx) e st bs ex .cont w' vm) : False := by
   simp only [Post, ContAt, findLoop] at h
-  obtain ⟨_, _, _, _, _, s, hs, _⟩ := h
+  obtain ⟨_, _, _, _, _, _, s, hs, _⟩ := h
   simp at hs
 
 /-- an abrupt outcome inside an exception handler region (EXCEPT_HANDLER block on top, its three
 saved values on the stack) leaves through the handler block -/
 theorem abrupt_through_handler {P : Prims W} {code : Code} {ctx1 ctx2 : Ctx} {e1 e2 : Nat} {X : List Val} {a b c : Val}
-    {st : List Val} {bs : List Block} {o : Outcome} {w' : W} {vm : VM W}
+    {st : List Val} {bs : List Block} {ex : ExcInfo} {o : Outcome} {w' : W} {vm : VM W}
     (hl : hasLoop ctx1 = hasLoop ctx2) (ho : Abrupt o)
-    (h : Post ctx1 e1 (X ++ a :: b :: c :: st) (⟨.handler, -1, st.length⟩ :: bs) o w' vm) :
-    ∃ vm', Reach P code vm vm' ∧ Post ctx2 e2 st bs o w' vm' := by
+    (h : Post ctx1 e1 (X ++ a :: b :: c :: st) (⟨.handler, -1, st.length⟩ :: bs) ex o w' vm) :
+    ∃ vm', Reach P code vm vm' ∧ Post ctx2 e2 st bs (savedOf a b c) o w' vm' := by
   cases o with
   | normal => exact absurd ho (by simp [Abrupt])
   | cont => exact absurd ho (by simp [Abrupt])
   | brk =>
-    obtain ⟨hlp, pc2, junk, rv2, ex2, rfl⟩ := h.brk_eq
-    obtain ⟨e, hr⟩ := handler_passes (P := P) (code := code) (pc := pc2) (junk := junk ++ X) (st := st) (a := a) (b := b) (c := c)
-      (bs := bs) (why := .brk) (by simp) (rv := rv2) (cur := {}) (ex := ex2) (w := w')
+    obtain ⟨hlp, pc2, junk, rv2, rfl⟩ := h.brk_eq
+    have hr := handler_passes (P := P) (code := code) (pc := pc2) (junk := junk ++ X) (st := st) (a := a) (b := b) (c := c)
+      (bs := bs) (why := .brk) (by simp) (rv := rv2) (cur := {}) (ex := ex) (w := w')
     rw [List.append_assoc] at hr
     exact ⟨_, hr, by simp [Post, ← hl, hlp]⟩
   | ret v =>
-    obtain ⟨pc2, junk, ex2, rfl⟩ := h.ret_eq
-    obtain ⟨e, hr⟩ := handler_passes (P := P) (code := code) (pc := pc2) (junk := junk ++ X) (st := st) (a := a) (b := b) (c := c)
-      (bs := bs) (why := .ret) (by simp) (rv := .int v) (cur := {}) (ex := ex2) (w := w')
+    obtain ⟨pc2, junk, rfl⟩ := h.ret_eq
+    have hr := handler_passes (P := P) (code := code) (pc := pc2) (junk := junk ++ X) (st := st) (a := a) (b := b) (c := c)
+      (bs := bs) (why := .ret) (by simp) (rv := .int v) (cur := {}) (ex := ex) (w := w')
     rw [List.append_assoc] at hr
     exact ⟨_, hr, by simp [Post]⟩
   | exc cl l =>
-    obtain ⟨pc2, junk, rv2, ex2, rfl⟩ := h.exc_eq
-    obtain ⟨e, hr⟩ := handler_passes (P := P) (code := code) (pc := pc2) (junk := junk ++ X) (st := st) (a := a) (b := b) (c := c)
-      (bs := bs) (why := .exception) (by simp) (rv := rv2) (cur := ⟨some cl, .excv cl, some [l]⟩) (ex := ex2) (w := w')
+    obtain ⟨pc2, junk, rv2, rfl⟩ := h.exc_eq
+    have hr := handler_passes (P := P) (code := code) (pc := pc2) (junk := junk ++ X) (st := st) (a := a) (b := b) (c := c)
+      (bs := bs) (why := .exception) (by simp) (rv := rv2) (cur := ⟨some cl, .excv cl, some [l]⟩) (ex := ex) (w := w')
     rw [List.append_assoc] at hr
     exact ⟨_, hr, by simp [Post]⟩
 
@@ -653,7 +747,7 @@ theorem hasLoop_finallyEnd (ctx : Ctx) : hasLoop (.finallyEnd :: ctx) = hasLoop 
 theorem hasLoop_except (ctx : Ctx) : hasLoop (.except :: ctx) = hasLoop ctx := rfl
 theorem sim_while_head (P : Prims W) (code : Code) (f : Nat) (ihS : SimS P code f) (ihW : SimW P code f) :
     SimW P code (f+1) := by
-  intro ln i b o w w' out h hcovb hcovo ctx pc cur st bs rv ex hce hc hinv
+  intro ln i b o w w' out hd h hcovb hcovo ctx pc cur st bs rv ex hex hce hc hinv
   have hce' := hce
   simp only [compErr] at hce'
   obtain ⟨hcb, hco⟩ := orElse_none hce'
@@ -695,7 +789,7 @@ theorem sim_while_head (P : Prims W) (code : Code) (f : Nat) (ihS : SimS P code 
       simp only at h
       by_cases hv : v = 0
       · simp only [hv, ne_eq, not_true_eq_false, if_false] at h
-        obtain ⟨vm2, hr2, hp2⟩ := ihS o w1 w' out h hcovo ctx (pc + 1 + 3 + 1 + len b + 2) (endLine ln b) st bs rv ex
+        obtain ⟨vm2, hr2, hp2⟩ := ihS o w1 w' out hd h hcovo ctx (pc + 1 + 3 + 1 + len b + 2) (endLine ln b) st bs rv ex hex
           (by have e : pc + 1 + 3 + 1 + len b + 2 = pc + 5 + len b + 1 + 1 := by omega
               rw [e]; exact hco)
           (hO.cast (by omega)) hinv
@@ -711,13 +805,13 @@ theorem sim_while_head (P : Prims W) (code : Code) (f : Nat) (ihS : SimS P code 
         · have e : pc + 1 + 3 + 1 + len b + 2 + len o = pc + len (.whileS ln i b o) := by simp [len]; omega
           rw [← e]; exact hp2
       · simp only [ne_eq, hv, not_false_eq_true, if_true] at h
-        cases hb : execT P f (.run b) w1 with
+        cases hb : execT P f (.run b) w1 hd with
         | none => rw [hb] at h; simp at h
         | some r =>
           obtain ⟨w2, o1⟩ := r
           rw [hb] at h
-          obtain ⟨vm2, hr2, hp2⟩ := ihS b w1 w2 o1 hb hcovb (.loop (pc + 1) :: ctx) (pc + 1 + 3 + 1) ln st
-            (⟨.loop, ((pc + 5 + len b + 1 + 1 + len o : Nat) : Int), st.length⟩ :: bs) rv ex hcb hB hinv'
+          obtain ⟨vm2, hr2, hp2⟩ := ihS b w1 w2 o1 hd hb hcovb (.loop (pc + 1) :: ctx) (pc + 1 + 3 + 1) ln st
+            (⟨.loop, ((pc + 5 + len b + 1 + 1 + len o : Nat) : Int), st.length⟩ :: bs) rv ex hex hcb hB hinv'
           have hpre : Reach P code ⟨pc + 1, st, ⟨.loop, ((pc + 5 + len b + 1 + 1 + len o : Nat) : Int), st.length⟩ :: bs,
               .not, rv, {}, ex, w⟩ vm2 := by
             vstep h1
@@ -728,37 +822,37 @@ theorem sim_while_head (P : Prims W) (code : Code) (f : Nat) (ihS : SimS P code 
           cases o1 with
           | normal =>
             simp only at h
-            obtain ⟨rv2, ex2, rfl⟩ := hp2.normal_eq
-            obtain ⟨vm3, hr3, hp3⟩ := ihW ln i b o _ w' out h hcovb hcovo ctx pc cur st bs rv2 ex2 hce hc hinv
+            obtain ⟨rv2, rfl⟩ := hp2.normal_eq
+            obtain ⟨vm3, hr3, hp3⟩ := ihW ln i b o _ w' out hd h hcovb hcovo ctx pc cur st bs rv2 ex hex hce hc hinv
             refine ⟨vm3, hpre.trans ?_, hp3⟩
             vstep hja
             exact hr3
           | cont =>
             simp only at h
-            obtain ⟨rv2, ex2, rfl⟩ := hp2.cont_loop_eq
-            obtain ⟨vm3, hr3, hp3⟩ := ihW ln i b o _ w' out h hcovb hcovo ctx pc cur st bs rv2 ex2 hce hc hinv
+            obtain ⟨rv2, rfl⟩ := hp2.cont_loop_eq
+            obtain ⟨vm3, hr3, hp3⟩ := ihW ln i b o _ w' out hd h hcovb hcovo ctx pc cur st bs rv2 ex hex hce hc hinv
             exact ⟨vm3, hpre.trans hr3, hp3⟩
           | brk =>
             simp only [Option.some.injEq, Prod.mk.injEq] at h
             obtain ⟨rfl, rfl⟩ := h
-            obtain ⟨_, pc2, junk, rv2, ex2, rfl⟩ := hp2.brk_eq
+            obtain ⟨_, pc2, junk, rv2, rfl⟩ := hp2.brk_eq
             refine ⟨_, hpre.trans loop_breaks, ?_⟩
             simp [Post, len]; omega
           | ret v' =>
             simp only [Option.some.injEq, Prod.mk.injEq] at h
             obtain ⟨rfl, rfl⟩ := h
-            obtain ⟨pc2, junk, ex2, rfl⟩ := hp2.ret_eq
+            obtain ⟨pc2, junk, rfl⟩ := hp2.ret_eq
             refine ⟨_, hpre.trans (loop_passes (Or.inl rfl)), ?_⟩
             simp [Post]
           | exc c l =>
             simp only [Option.some.injEq, Prod.mk.injEq] at h
             obtain ⟨rfl, rfl⟩ := h
-            obtain ⟨pc2, junk, rv2, ex2, rfl⟩ := hp2.exc_eq
+            obtain ⟨pc2, junk, rv2, rfl⟩ := hp2.exc_eq
             refine ⟨_, hpre.trans (loop_passes (Or.inr rfl)), ?_⟩
             simp [Post]
 theorem sim_for_head (P : Prims W) (code : Code) (f : Nat) (ihS : SimS P code f) (ihF : SimF P code f) :
     SimF P code (f+1) := by
-  intro ln i hd b o w w' out h hcovb hcovo ctx pc cur st bs rv ex hce hc hinv
+  intro ln i hnd b o w w' out hd h hcovb hcovo ctx pc cur st bs rv ex hex hce hc hinv
   have hce' := hce
   simp only [compErr] at hce'
   obtain ⟨hcb, hco⟩ := orElse_none hce'
@@ -778,13 +872,13 @@ theorem sim_for_head (P : Prims W) (code : Code) (f : Nat) (ihS : SimS P code f)
   have hinv' : CtxInv (.loop (pc + 5) :: ctx) (⟨.loop, ((pc + 7 + len b + 1 + 1 + len o : Nat) : Int), st.length⟩ :: bs) := by
     intro s rest _; exact ⟨_, _, _, rfl⟩
   unfold execT at h
-  cases hn : P.itNext w hd with
+  cases hn : P.itNext w hnd with
   | mk w1 r =>
     rw [hn] at h
     cases r with
     | none =>
       simp only at h
-      obtain ⟨vm2, hr2, hp2⟩ := ihS o w1 w' out h hcovo ctx (pc + 7 + len b + 2) (endLine ln b) st bs rv ex
+      obtain ⟨vm2, hr2, hp2⟩ := ihS o w1 w' out hd h hcovo ctx (pc + 7 + len b + 2) (endLine ln b) st bs rv ex hex
         (by have e : pc + 7 + len b + 2 = pc + 7 + len b + 1 + 1 := by omega
             rw [e]; exact hco)
         (hO.cast (by omega)) hinv
@@ -797,14 +891,14 @@ theorem sim_for_head (P : Prims W) (code : Code) (f : Nat) (ihS : SimS P code f)
         rw [← e]; exact hp2
     | some k =>
       simp only at h
-      cases hb : execT P f (.run b) w1 with
+      cases hb : execT P f (.run b) w1 hd with
       | none => rw [hb] at h; simp at h
       | some r =>
         obtain ⟨w2, o1⟩ := r
         rw [hb] at h
-        obtain ⟨vm2, hr2, hp2⟩ := ihS b w1 w2 o1 hb hcovb (.loop (pc + 5) :: ctx) (pc + 7) ln (.iter hd :: st)
-          (⟨.loop, ((pc + 7 + len b + 1 + 1 + len o : Nat) : Int), st.length⟩ :: bs) rv ex hcb hB hinv'
-        have hpre : Reach P code ⟨pc + 5, .iter hd :: st, ⟨.loop, ((pc + 7 + len b + 1 + 1 + len o : Nat) : Int), st.length⟩ :: bs,
+        obtain ⟨vm2, hr2, hp2⟩ := ihS b w1 w2 o1 hd hb hcovb (.loop (pc + 5) :: ctx) (pc + 7) ln (.iter hnd :: st)
+          (⟨.loop, ((pc + 7 + len b + 1 + 1 + len o : Nat) : Int), st.length⟩ :: bs) rv ex hex hcb hB hinv'
+        have hpre : Reach P code ⟨pc + 5, .iter hnd :: st, ⟨.loop, ((pc + 7 + len b + 1 + 1 + len o : Nat) : Int), st.length⟩ :: bs,
             .not, rv, {}, ex, w⟩ vm2 := by
           vstepx [hn] h5
           vstep h6
@@ -812,47 +906,47 @@ theorem sim_for_head (P : Prims W) (code : Code) (f : Nat) (ihS : SimS P code f)
         cases o1 with
         | normal =>
           simp only at h
-          obtain ⟨rv2, ex2, rfl⟩ := hp2.normal_eq
-          obtain ⟨vm3, hr3, hp3⟩ := ihF ln i hd b o _ w' out h hcovb hcovo ctx pc cur st bs rv2 ex2 hce hc hinv
+          obtain ⟨rv2, rfl⟩ := hp2.normal_eq
+          obtain ⟨vm3, hr3, hp3⟩ := ihF ln i hnd b o _ w' out hd h hcovb hcovo ctx pc cur st bs rv2 ex hex hce hc hinv
           refine ⟨vm3, hpre.trans ?_, hp3⟩
           vstep hja
           exact hr3
         | cont =>
           simp only at h
-          obtain ⟨rv2, ex2, rfl⟩ := hp2.cont_loop_eq
-          obtain ⟨vm3, hr3, hp3⟩ := ihF ln i hd b o _ w' out h hcovb hcovo ctx pc cur st bs rv2 ex2 hce hc hinv
+          obtain ⟨rv2, rfl⟩ := hp2.cont_loop_eq
+          obtain ⟨vm3, hr3, hp3⟩ := ihF ln i hnd b o _ w' out hd h hcovb hcovo ctx pc cur st bs rv2 ex hex hce hc hinv
           exact ⟨vm3, hpre.trans hr3, hp3⟩
         | brk =>
           simp only [Option.some.injEq, Prod.mk.injEq] at h
           obtain ⟨rfl, rfl⟩ := h
-          obtain ⟨_, pc2, junk, rv2, ex2, rfl⟩ := hp2.brk_eq
-          refine ⟨⟨pc + 7 + len b + 1 + 1 + len o, st, bs, .not, rv2, {}, ex2, w2⟩, hpre.trans ?_, ?_⟩
-          · have e : junk ++ Val.iter hd :: st = (junk ++ [Val.iter hd]) ++ st := by simp
+          obtain ⟨_, pc2, junk, rv2, rfl⟩ := hp2.brk_eq
+          refine ⟨⟨pc + 7 + len b + 1 + 1 + len o, st, bs, .not, rv2, {}, ex, w2⟩, hpre.trans ?_, ?_⟩
+          · have e : junk ++ Val.iter hnd :: st = (junk ++ [Val.iter hnd]) ++ st := by simp
             rw [e]; exact loop_breaks
           · simp [Post, len]; omega
         | ret v' =>
           simp only [Option.some.injEq, Prod.mk.injEq] at h
           obtain ⟨rfl, rfl⟩ := h
-          obtain ⟨pc2, junk, ex2, rfl⟩ := hp2.ret_eq
-          refine ⟨⟨pc2, st, bs, .ret, .int v', {}, ex2, w2⟩, hpre.trans ?_, ?_⟩
-          · have e : junk ++ Val.iter hd :: st = (junk ++ [Val.iter hd]) ++ st := by simp
+          obtain ⟨pc2, junk, rfl⟩ := hp2.ret_eq
+          refine ⟨⟨pc2, st, bs, .ret, .int v', {}, ex, w2⟩, hpre.trans ?_, ?_⟩
+          · have e : junk ++ Val.iter hnd :: st = (junk ++ [Val.iter hnd]) ++ st := by simp
             rw [e]; exact loop_passes (Or.inl rfl)
           · simp [Post]
         | exc c l =>
           simp only [Option.some.injEq, Prod.mk.injEq] at h
           obtain ⟨rfl, rfl⟩ := h
-          obtain ⟨pc2, junk, rv2, ex2, rfl⟩ := hp2.exc_eq
-          refine ⟨⟨pc2, st, bs, .exception, rv2, ⟨some c, .excv c, some [l]⟩, ex2, w2⟩, hpre.trans ?_, ?_⟩
-          · have e : junk ++ Val.iter hd :: st = (junk ++ [Val.iter hd]) ++ st := by simp
+          obtain ⟨pc2, junk, rv2, rfl⟩ := hp2.exc_eq
+          refine ⟨⟨pc2, st, bs, .exception, rv2, ⟨some c, .excv c, some [l]⟩, ex, w2⟩, hpre.trans ?_, ?_⟩
+          · have e : junk ++ Val.iter hnd :: st = (junk ++ [Val.iter hnd]) ++ st := by simp
             rw [e]; exact loop_passes (Or.inr rfl)
           · simp [Post]
 theorem sim_while (P : Prims W) (code : Code) (f : Nat) (hW : SimW P code (f+1)) (ln i : Nat) (b o' : Stmt)
-    (w w' : W) (o : Outcome) (h : execT P (f+1) (.run (.whileS ln i b o')) w = some (w', o)) (hcov : Cov (.whileS ln i b o') = true)
-    (ctx : Ctx) (pc cur : Nat) (st : List Val) (bs : List Block) (rv : Val) (ex : ExcInfo)
+    (w w' : W) (o : Outcome) (hd : Handled) (h : execT P (f+1) (.run (.whileS ln i b o')) w hd = some (w', o)) (hcov : Cov (.whileS ln i b o') = true)
+    (ctx : Ctx) (pc cur : Nat) (st : List Val) (bs : List Block) (rv : Val) (ex : ExcInfo) (hex : ex = hdInfo hd)
     (hce : compErr ctx pc (.whileS ln i b o') = none) (hc : CodeAt code pc (compS ctx pc cur (.whileS ln i b o'))) (hinv : CtxInv ctx bs) :
-    ∃ vm', Reach P code ⟨pc, st, bs, .not, rv, {}, ex, w⟩ vm' ∧ Post ctx (pc + len (.whileS ln i b o')) st bs o w' vm' := by
+    ∃ vm', Reach P code ⟨pc, st, bs, .not, rv, {}, ex, w⟩ vm' ∧ Post ctx (pc + len (.whileS ln i b o')) st bs ex o w' vm' := by
   simp only [Cov, Bool.and_eq_true] at hcov
-  obtain ⟨vm2, hr2, hp2⟩ := hW ln i b o' w w' o h hcov.1 hcov.2 ctx pc cur st bs rv ex hce hc hinv
+  obtain ⟨vm2, hr2, hp2⟩ := hW ln i b o' w w' o hd h hcov.1 hcov.2 ctx pc cur st bs rv ex hex hce hc hinv
   have hc' := hc
   simp only [compS, callProbe, List.cons_append, List.nil_append, List.append_assoc] at hc'
   have h0 := hc'.nth 0 (by simp)
@@ -862,14 +956,14 @@ theorem sim_while (P : Prims W) (code : Code) (f : Nat) (hW : SimW P code (f+1))
   exact hr2
 
 theorem sim_for (P : Prims W) (code : Code) (f : Nat) (ihF : SimF P code f) (ln i : Nat) (b o' : Stmt)
-    (w w' : W) (o : Outcome) (h : execT P (f+1) (.run (.forS ln i b o')) w = some (w', o)) (hcov : Cov (.forS ln i b o') = true)
-    (ctx : Ctx) (pc cur : Nat) (st : List Val) (bs : List Block) (rv : Val) (ex : ExcInfo)
+    (w w' : W) (o : Outcome) (hd : Handled) (h : execT P (f+1) (.run (.forS ln i b o')) w hd = some (w', o)) (hcov : Cov (.forS ln i b o') = true)
+    (ctx : Ctx) (pc cur : Nat) (st : List Val) (bs : List Block) (rv : Val) (ex : ExcInfo) (hex : ex = hdInfo hd)
     (hce : compErr ctx pc (.forS ln i b o') = none) (hc : CodeAt code pc (compS ctx pc cur (.forS ln i b o'))) (hinv : CtxInv ctx bs) :
-    ∃ vm', Reach P code ⟨pc, st, bs, .not, rv, {}, ex, w⟩ vm' ∧ Post ctx (pc + len (.forS ln i b o')) st bs o w' vm' := by
+    ∃ vm', Reach P code ⟨pc, st, bs, .not, rv, {}, ex, w⟩ vm' ∧ Post ctx (pc + len (.forS ln i b o')) st bs ex o w' vm' := by
   simp only [Cov, Bool.and_eq_true] at hcov
   unfold execT at h
   simp only at h
-  obtain ⟨vm2, hr2, hp2⟩ := ihF ln i (P.itNew w i).2 b o' (P.itNew w i).1 w' o h hcov.1 hcov.2 ctx pc cur st bs rv ex hce hc hinv
+  obtain ⟨vm2, hr2, hp2⟩ := ihF ln i (P.itNew w i).2 b o' (P.itNew w i).1 w' o hd h hcov.1 hcov.2 ctx pc cur st bs rv ex hex hce hc hinv
   have hc' := hc
   simp only [compS, callProbe, List.cons_append, List.nil_append, List.append_assoc] at hc'
   have h0 := hc'.nth 0 (by simp)
@@ -887,22 +981,22 @@ theorem sim_for (P : Prims W) (code : Code) (f : Nat) (ihF : SimF P code f) (ln 
   exact hr2
 
 theorem Post.cont_pending_eq {ctx : Ctx} {x : Loop} (hx : x = .finallyTry ∨ x = .except)
-    {e : Nat} {st : List Val} {bs : List Block} {w' : W} {vm : VM W}
-    (h : Post (x :: ctx) e st bs .cont w' vm) :
-    ∃ pc s ex, findLoop (x :: ctx) = some s ∧ vm = ⟨pc, st, bs, .cont, .int s, {}, ex, w'⟩ := by
+    {e : Nat} {st : List Val} {bs : List Block} {ex : ExcInfo} {w' : W} {vm : VM W}
+    (h : Post (x :: ctx) e st bs ex .cont w' vm) :
+    ∃ pc s, findLoop (x :: ctx) = some s ∧ vm = ⟨pc, st, bs, .cont, .int s, {}, ex, w'⟩ := by
   obtain ⟨pc1, st1, bs1, why1, rv1, cur1, ex1, ww1⟩ := vm
   rcases hx with rfl | rfl
   all_goals
     simp only [Post, ContAt] at h
-    obtain ⟨rfl, rfl, rfl, rfl, rfl, s, hs, rfl⟩ := h
-    exact ⟨pc1, s, ex1, hs, rfl⟩
+    obtain ⟨rfl, rfl, rfl, rfl, rfl, rfl, s, hs, rfl⟩ := h
+    exact ⟨pc1, s, hs, rfl⟩
 
 theorem sim_tryF (P : Prims W) (code : Code) (f : Nat) (ihS : SimS P code f) (ln : Nat) (b fi : Stmt)
-    (w w' : W) (o : Outcome) (h : execT P (f+1) (.run (.tryF ln b fi)) w = some (w', o))
+    (w w' : W) (o : Outcome) (hd : Handled) (h : execT P (f+1) (.run (.tryF ln b fi)) w hd = some (w', o))
     (hcovb : Cov b = true) (hcovf : Cov fi = true)
-    (ctx : Ctx) (pc cur : Nat) (st : List Val) (bs : List Block) (rv : Val) (ex : ExcInfo)
+    (ctx : Ctx) (pc cur : Nat) (st : List Val) (bs : List Block) (rv : Val) (ex : ExcInfo) (hex : ex = hdInfo hd)
     (hce : compErr ctx pc (.tryF ln b fi) = none) (hc : CodeAt code pc (compS ctx pc cur (.tryF ln b fi))) (hinv : CtxInv ctx bs) :
-    ∃ vm', Reach P code ⟨pc, st, bs, .not, rv, {}, ex, w⟩ vm' ∧ Post ctx (pc + len (.tryF ln b fi)) st bs o w' vm' := by
+    ∃ vm', Reach P code ⟨pc, st, bs, .not, rv, {}, ex, w⟩ vm' ∧ Post ctx (pc + len (.tryF ln b fi)) st bs ex o w' vm' := by
   simp only [compErr] at hce
   obtain ⟨hcb, hcf⟩ := orElse_none hce
   simp only [compS, List.cons_append, List.nil_append, List.append_assoc] at hc
@@ -928,46 +1022,46 @@ theorem sim_tryF (P : Prims W) (code : Code) (f : Nat) (ihS : SimS P code f) (ln
   have hlen : pc + 1 + len b + 2 + len fi + 1 = pc + len (.tryF ln b fi) := by simp [len]; omega
   unfold execT at h
   simp only at h
-  cases hb : execT P f (.run b) w with
+  cases hb : execT P f (.run b) w hd with
   | none => rw [hb] at h; simp at h
   | some r1 =>
     obtain ⟨w1, o1⟩ := r1
     rw [hb] at h
     simp only at h
-    cases hfi : execT P f (.run fi) w1 with
+    cases hfi : execT P f (.run fi) w1 (finHd hd o1) with
     | none => rw [hfi] at h; simp at h
     | some r2 =>
       obtain ⟨w2, o2⟩ := r2
       rw [hfi] at h
-      obtain ⟨vm1, hr1, hp1⟩ := ihS b w w1 o1 hb hcovb (.finallyTry :: ctx) (pc + 1) ln st
-        (⟨.finally, ((pc + 1 + len b + 2 : Nat) : Int), st.length⟩ :: bs) rv ex hcb hB hinvB
+      obtain ⟨vm1, hr1, hp1⟩ := ihS b w w1 o1 hd hb hcovb (.finallyTry :: ctx) (pc + 1) ln st
+        (⟨.finally, ((pc + 1 + len b + 2 : Nat) : Int), st.length⟩ :: bs) rv ex hex hcb hB hinvB
       have hpre : Reach P code ⟨pc, st, bs, .not, rv, {}, ex, w⟩ vm1 := by
         vstepx [pushBlock] h0
         exact hr1
       cases o1 with
       | exc c l =>
         -- the exception enters the finally body through an EXCEPT_HANDLER block
-        obtain ⟨pc1, junk, rv1, ex1, rfl⟩ := hp1.exc_eq
+        obtain ⟨pc1, junk, rv1, rfl⟩ := hp1.exc_eq
         have hent := handler_entry (P := P) (code := code) (pc := pc1) (junk := junk) (st := st) (h := pc + 1 + len b + 2)
-          (bs := bs) (k := .finally) (Or.inl rfl) (rv := rv1) (cur := ⟨some c, .excv c, some [l]⟩) (ex := ex1) (w := w1)
-        obtain ⟨vm2, hr2, hp2⟩ := ihS fi w1 w2 o2 hfi hcovf (.finallyEnd :: ctx) (pc + 1 + len b + 2) (endLine ln b)
-          (typeVal (some c) :: Val.excv c :: .tb (some [l]) :: typeVal ex1.type :: ex1.value :: .tb ex1.tb :: st)
-          (⟨.handler, -1, st.length⟩ :: bs) rv1 ⟨some c, .excv c, some [l]⟩ hcf hFi (hinvF _)
+          (bs := bs) (k := .finally) (Or.inl rfl) (rv := rv1) (cur := ⟨some c, .excv c, some [l]⟩) (ex := ex) (w := w1)
+        obtain ⟨vm2, hr2, hp2⟩ := ihS fi w1 w2 o2 (some (c, l)) hfi hcovf (.finallyEnd :: ctx) (pc + 1 + len b + 2) (endLine ln b)
+          (typeVal (some c) :: Val.excv c :: .tb (some [l]) :: typeVal ex.type :: ex.value :: .tb ex.tb :: st)
+          (⟨.handler, -1, st.length⟩ :: bs) rv1 ⟨some c, .excv c, some [l]⟩ rfl hcf hFi (hinvF _)
         have hpre2 := (hpre.trans hent).trans hr2
         cases o2 with
         | normal =>
           simp only [Option.some.injEq, Prod.mk.injEq] at h
           obtain ⟨rfl, rfl⟩ := h
-          obtain ⟨rv2, ex2, rfl⟩ := hp2.normal_eq
-          obtain ⟨e3, hr3⟩ := handler_passes (P := P) (code := code) (pc := pc + 1 + len b + 2 + len fi + 1) (junk := [])
-            (st := st) (a := typeVal ex1.type) (b := ex1.value) (c := .tb ex1.tb) (bs := bs) (why := .exception)
-            (by simp) (rv := rv2) (cur := ⟨some c, .excv c, some [l]⟩) (ex := ex2) (w := w2)
+          obtain ⟨rv2, rfl⟩ := hp2.normal_eq
+          have hr3 := handler_passes (P := P) (code := code) (pc := pc + 1 + len b + 2 + len fi + 1) (junk := [])
+            (st := st) (a := typeVal ex.type) (b := ex.value) (c := .tb ex.tb) (bs := bs) (why := .exception)
+            (by simp) (rv := rv2) (cur := ⟨some c, .excv c, some [l]⟩) (ex := ⟨some c, .excv c, some [l]⟩) (w := w2)
           have hstep : Reach P code
               ⟨pc + 1 + len b + 2 + len fi,
-               typeVal (some c) :: Val.excv c :: .tb (some [l]) :: typeVal ex1.type :: ex1.value :: .tb ex1.tb :: st,
-               ⟨.handler, -1, st.length⟩ :: bs, .not, rv2, {}, ex2, w2⟩
-              ⟨pc + 1 + len b + 2 + len fi + 1, [] ++ typeVal ex1.type :: ex1.value :: .tb ex1.tb :: st,
-               ⟨.handler, -1, st.length⟩ :: bs, .exception, rv2, ⟨some c, .excv c, some [l]⟩, ex2, w2⟩ := by
+               typeVal (some c) :: Val.excv c :: .tb (some [l]) :: typeVal ex.type :: ex.value :: .tb ex.tb :: st,
+               ⟨.handler, -1, st.length⟩ :: bs, .not, rv2, {}, ⟨some c, .excv c, some [l]⟩, w2⟩
+              ⟨pc + 1 + len b + 2 + len fi + 1, [] ++ typeVal ex.type :: ex.value :: .tb ex.tb :: st,
+               ⟨.handler, -1, st.length⟩ :: bs, .exception, rv2, ⟨some c, .excv c, some [l]⟩, ⟨some c, .excv c, some [l]⟩, w2⟩ := by
             vstepx [typeVal, Val.asTb] hef
             exact Reach.refl _
           exact ⟨_, (hpre2.trans hstep).trans hr3, by simp [Post]⟩
@@ -978,25 +1072,25 @@ theorem sim_tryF (P : Prims W) (code : Code) (f : Nat) (ihS : SimS P code f) (ln
           obtain ⟨vm3, hr3, hp3⟩ := abrupt_through_handler (P := P) (code := code) (ctx2 := ctx)
             (e2 := pc + len (.tryF ln b fi)) (X := [typeVal (some c), Val.excv c, .tb (some [l])])
             (hasLoop_finallyEnd ctx) (by simp [Abrupt]) hp2
-          exact ⟨vm3, hpre2.trans hr3, hp3⟩
+          exact ⟨vm3, hpre2.trans hr3, hp3.saved⟩
         | ret v =>
           simp only [Option.some.injEq, Prod.mk.injEq] at h
           obtain ⟨rfl, rfl⟩ := h
           obtain ⟨vm3, hr3, hp3⟩ := abrupt_through_handler (P := P) (code := code) (ctx2 := ctx)
             (e2 := pc + len (.tryF ln b fi)) (X := [typeVal (some c), Val.excv c, .tb (some [l])])
             (hasLoop_finallyEnd ctx) (by simp [Abrupt]) hp2
-          exact ⟨vm3, hpre2.trans hr3, hp3⟩
+          exact ⟨vm3, hpre2.trans hr3, hp3.saved⟩
         | exc c2 l2 =>
           simp only [Option.some.injEq, Prod.mk.injEq] at h
           obtain ⟨rfl, rfl⟩ := h
           obtain ⟨vm3, hr3, hp3⟩ := abrupt_through_handler (P := P) (code := code) (ctx2 := ctx)
             (e2 := pc + len (.tryF ln b fi)) (X := [typeVal (some c), Val.excv c, .tb (some [l])])
             (hasLoop_finallyEnd ctx) (by simp [Abrupt]) hp2
-          exact ⟨vm3, hpre2.trans hr3, hp3⟩
+          exact ⟨vm3, hpre2.trans hr3, hp3.saved⟩
       | normal =>
-        obtain ⟨rv1, ex1, rfl⟩ := hp1.normal_eq
-        obtain ⟨vm2, hr2, hp2⟩ := ihS fi w1 w2 o2 hfi hcovf (.finallyEnd :: ctx) (pc + 1 + len b + 2) (endLine ln b)
-          ([Val.none] ++ st) bs rv1 ex1 hcf hFi (hinvF _)
+        obtain ⟨rv1, rfl⟩ := hp1.normal_eq
+        obtain ⟨vm2, hr2, hp2⟩ := ihS fi w1 w2 o2 hd hfi hcovf (.finallyEnd :: ctx) (pc + 1 + len b + 2) (endLine ln b)
+          ([Val.none] ++ st) bs rv1 ex hex hcf hFi (hinvF _)
         have hpre2 : Reach P code ⟨pc, st, bs, .not, rv, {}, ex, w⟩ vm2 := by
           refine hpre.trans ?_
           vstep hpb
@@ -1006,9 +1100,9 @@ theorem sim_tryF (P : Prims W) (code : Code) (f : Nat) (ihS : SimS P code f) (ln
         | normal =>
           simp only [Option.some.injEq, Prod.mk.injEq] at h
           obtain ⟨rfl, rfl⟩ := h
-          obtain ⟨rv2, ex2, rfl⟩ := hp2.normal_eq
-          have hstep : Reach P code ⟨pc + 1 + len b + 2 + len fi, [Val.none] ++ st, bs, .not, rv2, {}, ex2, w2⟩
-              ⟨pc + 1 + len b + 2 + len fi + 1, st, bs, .not, rv2, {}, ex2, w2⟩ := by
+          obtain ⟨rv2, rfl⟩ := hp2.normal_eq
+          have hstep : Reach P code ⟨pc + 1 + len b + 2 + len fi, [Val.none] ++ st, bs, .not, rv2, {}, ex, w2⟩
+              ⟨pc + 1 + len b + 2 + len fi + 1, st, bs, .not, rv2, {}, ex, w2⟩ := by
             vstepx [] hef
             exact Reach.refl _
           exact ⟨_, hpre2.trans hstep, by simp [Post, hlen]⟩
@@ -1018,22 +1112,22 @@ theorem sim_tryF (P : Prims W) (code : Code) (f : Nat) (ihS : SimS P code f) (ln
           obtain ⟨rfl, rfl⟩ := h
           exact ⟨vm2, hpre2, hp2.weaken (hasLoop_finallyEnd ctx) (by simp [Abrupt])⟩
       | brk =>
-        obtain ⟨hlp, pc1, junk, rv1, ex1, rfl⟩ := hp1.brk_eq
+        obtain ⟨hlp, pc1, junk, rv1, rfl⟩ := hp1.brk_eq
         have hent : Reach P code
-            ⟨pc1, junk ++ st, ⟨.finally, ((pc + 1 + len b + 2 : Nat) : Int), st.length⟩ :: bs, .brk, rv1, {}, ex1, w1⟩
-            ⟨pc + 1 + len b + 2, [Val.int 3] ++ st, bs, .not, rv1, {}, ex1, w1⟩ := by
+            ⟨pc1, junk ++ st, ⟨.finally, ((pc + 1 + len b + 2 : Nat) : Int), st.length⟩ :: bs, .brk, rv1, {}, ex, w1⟩
+            ⟨pc + 1 + len b + 2, [Val.int 3] ++ st, bs, .not, rv1, {}, ex, w1⟩ := by
           simpa [Why.code] using finally_takes (P := P) (code := code) (pc := pc1) (junk := junk) (st := st)
-            (h := pc + 1 + len b + 2) (bs := bs) (why := .brk) (rv := rv1) (cur := {}) (ex := ex1) (w := w1) (Or.inl rfl)
-        obtain ⟨vm2, hr2, hp2⟩ := ihS fi w1 w2 o2 hfi hcovf (.finallyEnd :: ctx) (pc + 1 + len b + 2) (endLine ln b)
-          ([Val.int 3] ++ st) bs rv1 ex1 hcf hFi (hinvF _)
+            (h := pc + 1 + len b + 2) (bs := bs) (why := .brk) (rv := rv1) (cur := {}) (ex := ex) (w := w1) (Or.inl rfl)
+        obtain ⟨vm2, hr2, hp2⟩ := ihS fi w1 w2 o2 hd hfi hcovf (.finallyEnd :: ctx) (pc + 1 + len b + 2) (endLine ln b)
+          ([Val.int 3] ++ st) bs rv1 ex hex hcf hFi (hinvF _)
         have hpre2 := (hpre.trans hent).trans hr2
         cases o2 with
         | normal =>
           simp only [Option.some.injEq, Prod.mk.injEq] at h
           obtain ⟨rfl, rfl⟩ := h
-          obtain ⟨rv2, ex2, rfl⟩ := hp2.normal_eq
-          have hstep : Reach P code ⟨pc + 1 + len b + 2 + len fi, [Val.int 3] ++ st, bs, .not, rv2, {}, ex2, w2⟩
-              ⟨pc + 1 + len b + 2 + len fi + 1, st, bs, .brk, rv2, {}, ex2, w2⟩ := by
+          obtain ⟨rv2, rfl⟩ := hp2.normal_eq
+          have hstep : Reach P code ⟨pc + 1 + len b + 2 + len fi, [Val.int 3] ++ st, bs, .not, rv2, {}, ex, w2⟩
+              ⟨pc + 1 + len b + 2 + len fi + 1, st, bs, .brk, rv2, {}, ex, w2⟩ := by
             vstepx [Why.ofCode] hef
             exact Reach.refl _
           exact ⟨_, hpre2.trans hstep, by simpa [Post] using (hasLoop_finallyTry ctx ▸ hlp)⟩
@@ -1043,22 +1137,22 @@ theorem sim_tryF (P : Prims W) (code : Code) (f : Nat) (ihS : SimS P code f) (ln
           obtain ⟨rfl, rfl⟩ := h
           exact ⟨vm2, hpre2, hp2.weaken (hasLoop_finallyEnd ctx) (by simp [Abrupt])⟩
       | ret v =>
-        obtain ⟨pc1, junk, ex1, rfl⟩ := hp1.ret_eq
+        obtain ⟨pc1, junk, rfl⟩ := hp1.ret_eq
         have hent : Reach P code
-            ⟨pc1, junk ++ st, ⟨.finally, ((pc + 1 + len b + 2 : Nat) : Int), st.length⟩ :: bs, .ret, .int v, {}, ex1, w1⟩
-            ⟨pc + 1 + len b + 2, [Val.int 2, Val.int v] ++ st, bs, .not, .int v, {}, ex1, w1⟩ := by
+            ⟨pc1, junk ++ st, ⟨.finally, ((pc + 1 + len b + 2 : Nat) : Int), st.length⟩ :: bs, .ret, .int v, {}, ex, w1⟩
+            ⟨pc + 1 + len b + 2, [Val.int 2, Val.int v] ++ st, bs, .not, .int v, {}, ex, w1⟩ := by
           simpa [Why.code] using finally_takes (P := P) (code := code) (pc := pc1) (junk := junk) (st := st)
-            (h := pc + 1 + len b + 2) (bs := bs) (why := .ret) (rv := .int v) (cur := {}) (ex := ex1) (w := w1) (Or.inr (Or.inl rfl))
-        obtain ⟨vm2, hr2, hp2⟩ := ihS fi w1 w2 o2 hfi hcovf (.finallyEnd :: ctx) (pc + 1 + len b + 2) (endLine ln b)
-          ([Val.int 2, Val.int v] ++ st) bs (.int v) ex1 hcf hFi (hinvF _)
+            (h := pc + 1 + len b + 2) (bs := bs) (why := .ret) (rv := .int v) (cur := {}) (ex := ex) (w := w1) (Or.inr (Or.inl rfl))
+        obtain ⟨vm2, hr2, hp2⟩ := ihS fi w1 w2 o2 hd hfi hcovf (.finallyEnd :: ctx) (pc + 1 + len b + 2) (endLine ln b)
+          ([Val.int 2, Val.int v] ++ st) bs (.int v) ex hex hcf hFi (hinvF _)
         have hpre2 := (hpre.trans hent).trans hr2
         cases o2 with
         | normal =>
           simp only [Option.some.injEq, Prod.mk.injEq] at h
           obtain ⟨rfl, rfl⟩ := h
-          obtain ⟨rv2, ex2, rfl⟩ := hp2.normal_eq
-          have hstep : Reach P code ⟨pc + 1 + len b + 2 + len fi, [Val.int 2, Val.int v] ++ st, bs, .not, rv2, {}, ex2, w2⟩
-              ⟨pc + 1 + len b + 2 + len fi + 1, st, bs, .ret, .int v, {}, ex2, w2⟩ := by
+          obtain ⟨rv2, rfl⟩ := hp2.normal_eq
+          have hstep : Reach P code ⟨pc + 1 + len b + 2 + len fi, [Val.int 2, Val.int v] ++ st, bs, .not, rv2, {}, ex, w2⟩
+              ⟨pc + 1 + len b + 2 + len fi + 1, st, bs, .ret, .int v, {}, ex, w2⟩ := by
             vstepx [Why.ofCode] hef
             exact Reach.refl _
           exact ⟨_, hpre2.trans hstep, by simp [Post]⟩
@@ -1068,27 +1162,27 @@ theorem sim_tryF (P : Prims W) (code : Code) (f : Nat) (ihS : SimS P code f) (ln
           obtain ⟨rfl, rfl⟩ := h
           exact ⟨vm2, hpre2, hp2.weaken (hasLoop_finallyEnd ctx) (by simp [Abrupt])⟩
       | cont =>
-        obtain ⟨pc1, s, ex1, hfl, rfl⟩ := hp1.cont_pending_eq (Or.inl rfl)
+        obtain ⟨pc1, s, hfl, rfl⟩ := hp1.cont_pending_eq (Or.inl rfl)
         have hent : Reach P code
-            ⟨pc1, [] ++ st, ⟨.finally, ((pc + 1 + len b + 2 : Nat) : Int), st.length⟩ :: bs, .cont, .int s, {}, ex1, w1⟩
-            ⟨pc + 1 + len b + 2, [Val.int 4, Val.int s] ++ st, bs, .not, .int s, {}, ex1, w1⟩ := by
+            ⟨pc1, [] ++ st, ⟨.finally, ((pc + 1 + len b + 2 : Nat) : Int), st.length⟩ :: bs, .cont, .int s, {}, ex, w1⟩
+            ⟨pc + 1 + len b + 2, [Val.int 4, Val.int s] ++ st, bs, .not, .int s, {}, ex, w1⟩ := by
           simpa [Why.code] using finally_takes (P := P) (code := code) (pc := pc1) (junk := []) (st := st)
-            (h := pc + 1 + len b + 2) (bs := bs) (why := .cont) (rv := .int s) (cur := {}) (ex := ex1) (w := w1) (Or.inr (Or.inr rfl))
-        obtain ⟨vm2, hr2, hp2⟩ := ihS fi w1 w2 o2 hfi hcovf (.finallyEnd :: ctx) (pc + 1 + len b + 2) (endLine ln b)
-          ([Val.int 4, Val.int s] ++ st) bs (.int s) ex1 hcf hFi (hinvF _)
+            (h := pc + 1 + len b + 2) (bs := bs) (why := .cont) (rv := .int s) (cur := {}) (ex := ex) (w := w1) (Or.inr (Or.inr rfl))
+        obtain ⟨vm2, hr2, hp2⟩ := ihS fi w1 w2 o2 hd hfi hcovf (.finallyEnd :: ctx) (pc + 1 + len b + 2) (endLine ln b)
+          ([Val.int 4, Val.int s] ++ st) bs (.int s) ex hex hcf hFi (hinvF _)
         have hpre2 := (hpre.trans hent).trans hr2
         cases o2 with
         | normal =>
           simp only [Option.some.injEq, Prod.mk.injEq] at h
           obtain ⟨rfl, rfl⟩ := h
-          obtain ⟨rv2, ex2, rfl⟩ := hp2.normal_eq
-          have hstep : Reach P code ⟨pc + 1 + len b + 2 + len fi, [Val.int 4, Val.int s] ++ st, bs, .not, rv2, {}, ex2, w2⟩
-              ⟨pc + 1 + len b + 2 + len fi + 1, st, bs, .cont, .int s, {}, ex2, w2⟩ := by
+          obtain ⟨rv2, rfl⟩ := hp2.normal_eq
+          have hstep : Reach P code ⟨pc + 1 + len b + 2 + len fi, [Val.int 4, Val.int s] ++ st, bs, .not, rv2, {}, ex, w2⟩
+              ⟨pc + 1 + len b + 2 + len fi + 1, st, bs, .cont, .int s, {}, ex, w2⟩ := by
             vstepx [Why.ofCode] hef
             exact Reach.refl _
           obtain ⟨vm3, hr3, hp3⟩ := cont_settle (P := P) (code := code) (ctx := ctx) (x := .finallyTry) (Or.inl rfl)
             (pc := pc + 1 + len b + 2 + len fi + 1) (s := s) (e := pc + len (.tryF ln b fi)) (st := st) (bs := bs)
-            (ex := ex2) (w := w2) hfl hinv
+            (ex := ex) (w := w2) hfl hinv
           exact ⟨vm3, (hpre2.trans hstep).trans hr3, hp3⟩
         | cont => exact absurd hp2 (fun hh => hh.no_cont_in_finally)
         | brk | ret _ | exc _ _ =>
@@ -1100,27 +1194,14 @@ theorem truthy_eq_pyTruth (v : Val) : truthy v = pyTruth v := by
 
 theorem typeVal_some (c : Cls) : typeVal (some c) = .cls c := rfl
 
-theorem cut_junk (junk st : List Val) : cut st.length (junk ++ st) = st := by
-  unfold cut cutTo
-  rw [List.length_append]
-  have : junk.length + st.length - st.length = junk.length := by omega
-  rw [this, List.drop_left]
 
-theorem unwindExceptHandler_junk (junk : List Val) (a b c : Val) (st : List Val) :
-    ∃ e, unwindExceptHandler st.length (junk ++ a :: b :: c :: st) = some (st, e) := by
-  have hlen : st.length + 3 ≤ (junk ++ a :: b :: c :: st).length := by simp
-  obtain ⟨e, he⟩ := unwindExceptHandler_ok hlen
-  have : junk ++ a :: b :: c :: st = (junk ++ [a, b, c]) ++ st := by simp
-  rw [this, cut_junk] at he
-  rw [this]
-  exact ⟨e, he⟩
 
 theorem sim_with (P : Prims W) (code : Code) (f : Nat) (ihS : SimS P code f) (ln i : Nat) (b : Stmt)
-    (w w' : W) (o : Outcome) (h : execT P (f+1) (.run (.withS ln i b)) w = some (w', o))
+    (w w' : W) (o : Outcome) (hd : Handled) (h : execT P (f+1) (.run (.withS ln i b)) w hd = some (w', o))
     (hcovb : Cov b = true)
-    (ctx : Ctx) (pc cur : Nat) (st : List Val) (bs : List Block) (rv : Val) (ex : ExcInfo)
+    (ctx : Ctx) (pc cur : Nat) (st : List Val) (bs : List Block) (rv : Val) (ex : ExcInfo) (hex : ex = hdInfo hd)
     (hce : compErr ctx pc (.withS ln i b) = none) (hc : CodeAt code pc (compS ctx pc cur (.withS ln i b))) (hinv : CtxInv ctx bs) :
-    ∃ vm', Reach P code ⟨pc, st, bs, .not, rv, {}, ex, w⟩ vm' ∧ Post ctx (pc + len (.withS ln i b)) st bs o w' vm' := by
+    ∃ vm', Reach P code ⟨pc, st, bs, .not, rv, {}, ex, w⟩ vm' ∧ Post ctx (pc + len (.withS ln i b)) st bs ex o w' vm' := by
   simp only [compErr] at hce
   simp only [compS, callProbe, List.cons_append, List.nil_append] at hc
   obtain ⟨h0, h1, h2, hr⟩ := callProbe_at hc
@@ -1141,13 +1222,13 @@ theorem sim_with (P : Prims W) (code : Code) (f : Nat) (ihS : SimS P code f) (ln
   have hlen : pc + 3 + 2 + len b + 3 + 1 = pc + len (.withS ln i b) := by simp [len]; omega
   unfold execT at h
   simp only at h
-  cases hb : execT P f (.run b) (P.cmEnter w i) with
+  cases hb : execT P f (.run b) (P.cmEnter w i) hd with
   | none => rw [hb] at h; simp at h
   | some r1 =>
     obtain ⟨w1, o1⟩ := r1
     rw [hb] at h
-    obtain ⟨vm1, hr1, hp1⟩ := ihS b (P.cmEnter w i) w1 o1 hb hcovb (.finallyTry :: ctx) (pc + 3 + 2) ln (Val.exitm i :: st)
-      (⟨.finally, ((pc + 5 + len b + 2 : Nat) : Int), (Val.exitm i :: st).length⟩ :: bs) rv ex hce hB hinvB
+    obtain ⟨vm1, hr1, hp1⟩ := ihS b (P.cmEnter w i) w1 o1 hd hb hcovb (.finallyTry :: ctx) (pc + 3 + 2) ln (Val.exitm i :: st)
+      (⟨.finally, ((pc + 5 + len b + 2 : Nat) : Int), (Val.exitm i :: st).length⟩ :: bs) rv ex hex hce hB hinvB
     have hpre : Reach P code ⟨pc, st, bs, .not, rv, {}, ex, w⟩ vm1 := by
       vstep h0
       vstep h1
@@ -1159,8 +1240,8 @@ theorem sim_with (P : Prims W) (code : Code) (f : Nat) (ihS : SimS P code f) (ln
     | normal =>
       simp only [Option.some.injEq, Prod.mk.injEq] at h
       obtain ⟨rfl, rfl⟩ := h
-      obtain ⟨rv1, ex1, rfl⟩ := hp1.normal_eq
-      refine ⟨⟨pc + 3 + 2 + len b + 3 + 1, st, bs, .not, rv1, {}, ex1, (P.cmExit w1 i none).1⟩, hpre.trans ?_, by simp [Post, hlen]⟩
+      obtain ⟨rv1, rfl⟩ := hp1.normal_eq
+      refine ⟨⟨pc + 3 + 2 + len b + 3 + 1, st, bs, .not, rv1, {}, ex, (P.cmExit w1 i none).1⟩, hpre.trans ?_, by simp [Post, hlen]⟩
       vstep hpb
       vstep hlc
       vstepx [] hwc
@@ -1169,13 +1250,13 @@ theorem sim_with (P : Prims W) (code : Code) (f : Nat) (ihS : SimS P code f) (ln
     | brk =>
       simp only [Option.some.injEq, Prod.mk.injEq] at h
       obtain ⟨rfl, rfl⟩ := h
-      obtain ⟨hlp, pc1, junk, rv1, ex1, rfl⟩ := hp1.brk_eq
+      obtain ⟨hlp, pc1, junk, rv1, rfl⟩ := hp1.brk_eq
       have hent : Reach P code
-          ⟨pc1, junk ++ Val.exitm i :: st, ⟨.finally, ((pc + 5 + len b + 2 : Nat) : Int), (Val.exitm i :: st).length⟩ :: bs, .brk, rv1, {}, ex1, w1⟩
-          ⟨pc + 5 + len b + 2, Val.int 3 :: Val.exitm i :: st, bs, .not, rv1, {}, ex1, w1⟩ := by
+          ⟨pc1, junk ++ Val.exitm i :: st, ⟨.finally, ((pc + 5 + len b + 2 : Nat) : Int), (Val.exitm i :: st).length⟩ :: bs, .brk, rv1, {}, ex, w1⟩
+          ⟨pc + 5 + len b + 2, Val.int 3 :: Val.exitm i :: st, bs, .not, rv1, {}, ex, w1⟩ := by
         simpa [Why.code] using finally_takes (P := P) (code := code) (pc := pc1) (junk := junk) (st := Val.exitm i :: st)
-          (h := pc + 5 + len b + 2) (bs := bs) (why := .brk) (rv := rv1) (cur := {}) (ex := ex1) (w := w1) (Or.inl rfl)
-      refine ⟨⟨pc + 5 + len b + 2 + 1 + 1, st, bs, .brk, rv1, {}, ex1, (P.cmExit w1 i none).1⟩, (hpre.trans hent).trans ?_,
+          (h := pc + 5 + len b + 2) (bs := bs) (why := .brk) (rv := rv1) (cur := {}) (ex := ex) (w := w1) (Or.inl rfl)
+      refine ⟨⟨pc + 5 + len b + 2 + 1 + 1, st, bs, .brk, rv1, {}, ex, (P.cmExit w1 i none).1⟩, (hpre.trans hent).trans ?_,
         by simpa [Post] using (hasLoop_finallyTry ctx ▸ hlp)⟩
       vstepx [Why.code] hwc
       vstepx [Why.ofCode] hef
@@ -1183,13 +1264,13 @@ theorem sim_with (P : Prims W) (code : Code) (f : Nat) (ihS : SimS P code f) (ln
     | ret v =>
       simp only [Option.some.injEq, Prod.mk.injEq] at h
       obtain ⟨rfl, rfl⟩ := h
-      obtain ⟨pc1, junk, ex1, rfl⟩ := hp1.ret_eq
+      obtain ⟨pc1, junk, rfl⟩ := hp1.ret_eq
       have hent : Reach P code
-          ⟨pc1, junk ++ Val.exitm i :: st, ⟨.finally, ((pc + 5 + len b + 2 : Nat) : Int), (Val.exitm i :: st).length⟩ :: bs, .ret, .int v, {}, ex1, w1⟩
-          ⟨pc + 5 + len b + 2, Val.int 2 :: Val.int v :: Val.exitm i :: st, bs, .not, .int v, {}, ex1, w1⟩ := by
+          ⟨pc1, junk ++ Val.exitm i :: st, ⟨.finally, ((pc + 5 + len b + 2 : Nat) : Int), (Val.exitm i :: st).length⟩ :: bs, .ret, .int v, {}, ex, w1⟩
+          ⟨pc + 5 + len b + 2, Val.int 2 :: Val.int v :: Val.exitm i :: st, bs, .not, .int v, {}, ex, w1⟩ := by
         simpa [Why.code] using finally_takes (P := P) (code := code) (pc := pc1) (junk := junk) (st := Val.exitm i :: st)
-          (h := pc + 5 + len b + 2) (bs := bs) (why := .ret) (rv := .int v) (cur := {}) (ex := ex1) (w := w1) (Or.inr (Or.inl rfl))
-      refine ⟨⟨pc + 5 + len b + 2 + 1 + 1, st, bs, .ret, .int v, {}, ex1, (P.cmExit w1 i none).1⟩, (hpre.trans hent).trans ?_,
+          (h := pc + 5 + len b + 2) (bs := bs) (why := .ret) (rv := .int v) (cur := {}) (ex := ex) (w := w1) (Or.inr (Or.inl rfl))
+      refine ⟨⟨pc + 5 + len b + 2 + 1 + 1, st, bs, .ret, .int v, {}, ex, (P.cmExit w1 i none).1⟩, (hpre.trans hent).trans ?_,
         by simp [Post]⟩
       vstepx [Why.code] hwc
       vstepx [Why.ofCode] hef
@@ -1197,35 +1278,35 @@ theorem sim_with (P : Prims W) (code : Code) (f : Nat) (ihS : SimS P code f) (ln
     | cont =>
       simp only [Option.some.injEq, Prod.mk.injEq] at h
       obtain ⟨rfl, rfl⟩ := h
-      obtain ⟨pc1, s, ex1, hfl, rfl⟩ := hp1.cont_pending_eq (Or.inl rfl)
+      obtain ⟨pc1, s, hfl, rfl⟩ := hp1.cont_pending_eq (Or.inl rfl)
       have hent : Reach P code
-          ⟨pc1, [] ++ Val.exitm i :: st, ⟨.finally, ((pc + 5 + len b + 2 : Nat) : Int), (Val.exitm i :: st).length⟩ :: bs, .cont, .int s, {}, ex1, w1⟩
-          ⟨pc + 5 + len b + 2, Val.int 4 :: Val.int s :: Val.exitm i :: st, bs, .not, .int s, {}, ex1, w1⟩ := by
+          ⟨pc1, [] ++ Val.exitm i :: st, ⟨.finally, ((pc + 5 + len b + 2 : Nat) : Int), (Val.exitm i :: st).length⟩ :: bs, .cont, .int s, {}, ex, w1⟩
+          ⟨pc + 5 + len b + 2, Val.int 4 :: Val.int s :: Val.exitm i :: st, bs, .not, .int s, {}, ex, w1⟩ := by
         simpa [Why.code] using finally_takes (P := P) (code := code) (pc := pc1) (junk := []) (st := Val.exitm i :: st)
-          (h := pc + 5 + len b + 2) (bs := bs) (why := .cont) (rv := .int s) (cur := {}) (ex := ex1) (w := w1) (Or.inr (Or.inr rfl))
-      have hstep : Reach P code ⟨pc + 5 + len b + 2, Val.int 4 :: Val.int s :: Val.exitm i :: st, bs, .not, .int s, {}, ex1, w1⟩
-          ⟨pc + 5 + len b + 2 + 1 + 1, st, bs, .cont, .int s, {}, ex1, (P.cmExit w1 i none).1⟩ := by
+          (h := pc + 5 + len b + 2) (bs := bs) (why := .cont) (rv := .int s) (cur := {}) (ex := ex) (w := w1) (Or.inr (Or.inr rfl))
+      have hstep : Reach P code ⟨pc + 5 + len b + 2, Val.int 4 :: Val.int s :: Val.exitm i :: st, bs, .not, .int s, {}, ex, w1⟩
+          ⟨pc + 5 + len b + 2 + 1 + 1, st, bs, .cont, .int s, {}, ex, (P.cmExit w1 i none).1⟩ := by
         vstepx [Why.code] hwc
         vstepx [Why.ofCode] hef
         exact Reach.refl _
       obtain ⟨vm3, hr3, hp3⟩ := cont_settle (P := P) (code := code) (ctx := ctx) (x := .finallyTry) (Or.inl rfl)
         (pc := pc + 5 + len b + 2 + 1 + 1) (s := s) (e := pc + len (.withS ln i b)) (st := st) (bs := bs)
-        (ex := ex1) (w := (P.cmExit w1 i none).1) hfl hinv
+        (ex := ex) (w := (P.cmExit w1 i none).1) hfl hinv
       exact ⟨vm3, ((hpre.trans hent).trans hstep).trans hr3, hp3⟩
     | exc c l =>
       simp only at h
-      obtain ⟨pc1, junk, rv1, ex1, rfl⟩ := hp1.exc_eq
+      obtain ⟨pc1, junk, rv1, rfl⟩ := hp1.exc_eq
       have hent := handler_entry (P := P) (code := code) (pc := pc1) (junk := junk) (st := Val.exitm i :: st) (h := pc + 5 + len b + 2)
-        (bs := bs) (k := .finally) (Or.inl rfl) (rv := rv1) (cur := ⟨some c, .excv c, some [l]⟩) (ex := ex1) (w := w1)
+        (bs := bs) (k := .finally) (Or.inl rfl) (rv := rv1) (cur := ⟨some c, .excv c, some [l]⟩) (ex := ex) (w := w1)
       have hpre2 := hpre.trans hent
       by_cases ht : pyTruth (P.cmExit w1 i (some c)).2 = true
       · rw [if_pos ht] at h
         simp only [Option.some.injEq, Prod.mk.injEq] at h
         obtain ⟨rfl, rfl⟩ := h
-        obtain ⟨e3, he3⟩ := unwindExceptHandler_junk [Val.cls c, Val.excv c, Val.tb (some [l]), Val.nil]
-          (typeVal ex1.type) ex1.value (Val.tb ex1.tb) st
-        simp only [List.cons_append, List.nil_append] at he3
-        refine ⟨⟨pc + 5 + len b + 2 + 1 + 1, st, bs, .not, rv1, {}, e3, (P.cmExit w1 i (some c)).1⟩, hpre2.trans ?_,
+        have he3 := unwindExceptHandler_junk [Val.cls c, Val.excv c, Val.tb (some [l]), Val.nil]
+          (typeVal ex.type) ex.value (Val.tb ex.tb) st
+        simp only [List.cons_append, List.nil_append, savedOf_typeVal] at he3
+        refine ⟨⟨pc + 5 + len b + 2 + 1 + 1, st, bs, .not, rv1, {}, ex, (P.cmExit w1 i (some c)).1⟩, hpre2.trans ?_,
           by simp [Post]; omega⟩
         vstepx [typeVal_some, truthy_eq_pyTruth, ht] hwc
         vstepx [Why.code, Why.ofCode, he3] hef
@@ -1233,8 +1314,8 @@ theorem sim_with (P : Prims W) (code : Code) (f : Nat) (ihS : SimS P code f) (ln
       · rw [if_neg ht] at h
         simp only [Option.some.injEq, Prod.mk.injEq] at h
         obtain ⟨rfl, rfl⟩ := h
-        obtain ⟨e3, hr3⟩ := handler_passes (P := P) (code := code) (pc := pc + 5 + len b + 2 + 1 + 1) (junk := [Val.nil])
-          (st := st) (a := typeVal ex1.type) (b := ex1.value) (c := .tb ex1.tb) (bs := bs) (why := .exception)
+        have hr3 := handler_passes (P := P) (code := code) (pc := pc + 5 + len b + 2 + 1 + 1) (junk := [Val.nil])
+          (st := st) (a := typeVal ex.type) (b := ex.value) (c := .tb ex.tb) (bs := bs) (why := .exception)
           (by simp) (rv := rv1) (cur := ⟨some c, .excv c, some [l]⟩) (ex := ⟨some c, .excv c, some [l]⟩) (w := (P.cmExit w1 i (some c)).1)
         refine ⟨_, (hpre2.trans ?_).trans hr3, by simp [Post]⟩
         vstepx [typeVal_some, truthy_eq_pyTruth, ht] hwc
@@ -1363,9 +1444,9 @@ theorem except_passes {P : Prims W} {code : Code} {pc : Nat} {junk st : List Val
 /-- an outcome established relative to the loop stack `x :: ctx` (x a try/with entry) is established
 relative to `ctx`, after settling a pending `continue` if `ctx` is directly a loop body -/
 theorem Post.lift {P : Prims W} {code : Code} {ctx : Ctx} {x : Loop} (hx : x = .finallyTry ∨ x = .except)
-    {e : Nat} {st : List Val} {bs : List Block} {o : Outcome} {w' : W} {vm : VM W}
-    (hinv : CtxInv ctx bs) (h : Post (x :: ctx) e st bs o w' vm) :
-    ∃ vm', Reach P code vm vm' ∧ Post ctx e st bs o w' vm' := by
+    {e : Nat} {st : List Val} {bs : List Block} {ex : ExcInfo} {o : Outcome} {w' : W} {vm : VM W}
+    (hinv : CtxInv ctx bs) (h : Post (x :: ctx) e st bs ex o w' vm) :
+    ∃ vm', Reach P code vm vm' ∧ Post ctx e st bs ex o w' vm' := by
   have hl : hasLoop (x :: ctx) = hasLoop ctx := by rcases hx with rfl | rfl <;> rfl
   cases o with
   | normal => exact ⟨vm, Reach.refl _, h⟩
@@ -1376,7 +1457,7 @@ theorem Post.lift {P : Prims W} {code : Code} {ctx : Ctx} {x : Loop} (hx : x = .
   | ret v => exact ⟨vm, Reach.refl _, h⟩
   | exc c l => exact ⟨vm, Reach.refl _, h⟩
   | cont =>
-    obtain ⟨pc1, s, ex1, hfl, rfl⟩ := h.cont_pending_eq hx
+    obtain ⟨pc1, s, hfl, rfl⟩ := h.cont_pending_eq hx
     exact cont_settle hx hfl hinv
 theorem Reach.start_pc {P : Prims W} {code : Code} {pc pc' : Nat} (e : pc = pc') {st : List Val} {bs : List Block} {why : Why}
     {rv : Val} {cur ex : ExcInfo} {w : W} {b : VM W}
@@ -1392,11 +1473,11 @@ theorem sim_handler (P : Prims W) (code : Code) (f : Nat) (ihS : SimS P code f) 
     (hc : CodeAt code hp (compHandler m hp cur (compS (.except :: ctx) (hp + handlerBodyOff m) m.ln hb) bl endL))
     (hce : compErr (.except :: ctx) (hp + handlerBodyOff m) hb = none)
     (st : List Val) (bs : List Block) (hinv : CtxInv ctx bs)
-    (w1 w' : W) (o : Outcome) (hx : execT P f (.run hb) w1 = some (w', o))
-    (v2 v3 o1 o2 o3 : Val) (rv : Val) (ex : ExcInfo) :
+    (w1 w' : W) (o : Outcome) (hd : Handled) (hx : execT P f (.run hb) w1 hd = some (w', o))
+    (v2 v3 o1 o2 o3 : Val) (rv : Val) (ex : ExcInfo) (hex : ex = hdInfo hd) :
     ∃ vm', Reach P code ⟨hp + (1 + (classesExpr m).length + 2) + 1, v2 :: v3 :: o1 :: o2 :: o3 :: st,
                           ⟨.handler, -1, st.length⟩ :: bs, .not, rv, {}, ex, w1⟩ vm' ∧
-           Post ctx endL st bs o w' vm' := by
+           Post ctx endL st bs (savedOf o1 o2 o3) o w' vm' := by
   have hoff := handlerBodyOff_eq m
   unfold compHandler at hc
   have hT : ([(Instr.dupTop, cur)] ++ classesExpr m ++ [(Instr.compareExcMatch, m.ln), (Instr.popJumpIfFalse (hp + handlerLen m (compS (.except :: ctx) (hp + handlerBodyOff m) m.ln hb).length), m.ln)] ++
@@ -1430,10 +1511,10 @@ theorem sim_handler (P : Prims W) (code : Code) (f : Nat) (ihS : SimS P code f) 
     simp only [List.getElem_cons_zero] at hjf
     have hpos : hp + (1 + (classesExpr m).length + 2 + 1) + 3 = hp + handlerBodyOff m := by rw [hoff]; omega
     rw [hpos] at hB
-    obtain ⟨vm1, hr1, hp1⟩ := ihS hb w1 w' o hx hcov (.except :: ctx) (hp + handlerBodyOff m) m.ln
+    obtain ⟨vm1, hr1, hp1⟩ := ihS hb w1 w' o hd hx hcov (.except :: ctx) (hp + handlerBodyOff m) m.ln
       (o1 :: o2 :: o3 :: st)
       (⟨.finally, ((hp + handlerBodyOff m + len hb + 3 : Nat) : Int), (o1 :: o2 :: o3 :: st).length⟩ :: ⟨.handler, -1, st.length⟩ :: bs)
-      rv ex hce hB (hinvX _)
+      rv ex hex hce hB (hinvX _)
     have hpre : Reach P code ⟨hp + (1 + (classesExpr m).length + 2) + 1, v2 :: v3 :: o1 :: o2 :: o3 :: st,
         ⟨.handler, -1, st.length⟩ :: bs, .not, rv, {}, ex, w1⟩ vm1 := by
       vstep h0
@@ -1447,10 +1528,10 @@ theorem sim_handler (P : Prims W) (code : Code) (f : Nat) (ihS : SimS P code f) 
       exact this.nth 0 (by simp)
     cases o with
     | normal =>
-      obtain ⟨rv1, ex1, rfl⟩ := hp1.normal_eq
-      obtain ⟨e3, he3⟩ := unwindExceptHandler_junk [] o1 o2 o3 st
+      obtain ⟨rv1, rfl⟩ := hp1.normal_eq
+      have he3 := unwindExceptHandler_junk [] o1 o2 o3 st
       simp only [List.nil_append] at he3
-      refine ⟨⟨endL, st, bs, .not, rv1, {}, e3, w'⟩, hpre.trans ?_, by simp [Post]⟩
+      refine ⟨⟨endL, st, bs, .not, rv1, {}, savedOf o1 o2 o3, w'⟩, hpre.trans ?_, by simp [Post]⟩
       vstep t0
       vstepx [he3] t1
       vstep t2
@@ -1461,71 +1542,71 @@ theorem sim_handler (P : Prims W) (code : Code) (f : Nat) (ihS : SimS P code f) 
       vstep hjf'
       exact Reach.refl _
     | brk =>
-      obtain ⟨hlp, pc1, junk, rv1, ex1, rfl⟩ := hp1.brk_eq
+      obtain ⟨hlp, pc1, junk, rv1, rfl⟩ := hp1.brk_eq
       have hent : Reach P code
-          ⟨pc1, junk ++ o1 :: o2 :: o3 :: st, ⟨.finally, ((hp + handlerBodyOff m + len hb + 3 : Nat) : Int), (o1 :: o2 :: o3 :: st).length⟩ :: ⟨.handler, -1, st.length⟩ :: bs, .brk, rv1, {}, ex1, w'⟩
-          ⟨hp + handlerBodyOff m + len hb + 3, Val.int 3 :: o1 :: o2 :: o3 :: st, ⟨.handler, -1, st.length⟩ :: bs, .not, rv1, {}, ex1, w'⟩ := by
+          ⟨pc1, junk ++ o1 :: o2 :: o3 :: st, ⟨.finally, ((hp + handlerBodyOff m + len hb + 3 : Nat) : Int), (o1 :: o2 :: o3 :: st).length⟩ :: ⟨.handler, -1, st.length⟩ :: bs, .brk, rv1, {}, ex, w'⟩
+          ⟨hp + handlerBodyOff m + len hb + 3, Val.int 3 :: o1 :: o2 :: o3 :: st, ⟨.handler, -1, st.length⟩ :: bs, .not, rv1, {}, ex, w'⟩ := by
         simpa [Why.code] using finally_takes (P := P) (code := code) (pc := pc1) (junk := junk) (st := o1 :: o2 :: o3 :: st)
-          (h := hp + handlerBodyOff m + len hb + 3) (bs := ⟨.handler, -1, st.length⟩ :: bs) (why := .brk) (rv := rv1) (cur := {}) (ex := ex1) (w := w') (Or.inl rfl)
+          (h := hp + handlerBodyOff m + len hb + 3) (bs := ⟨.handler, -1, st.length⟩ :: bs) (why := .brk) (rv := rv1) (cur := {}) (ex := ex) (w := w') (Or.inl rfl)
       have hstep : Reach P code
-          ⟨hp + handlerBodyOff m + len hb + 3, Val.int 3 :: o1 :: o2 :: o3 :: st, ⟨.handler, -1, st.length⟩ :: bs, .not, rv1, {}, ex1, w'⟩
-          ⟨hp + handlerBodyOff m + len hb + 7, [] ++ o1 :: o2 :: o3 :: st, ⟨.handler, -1, st.length⟩ :: bs, .brk, rv1, {}, ex1, w'⟩ := by
+          ⟨hp + handlerBodyOff m + len hb + 3, Val.int 3 :: o1 :: o2 :: o3 :: st, ⟨.handler, -1, st.length⟩ :: bs, .not, rv1, {}, ex, w'⟩
+          ⟨hp + handlerBodyOff m + len hb + 7, [] ++ o1 :: o2 :: o3 :: st, ⟨.handler, -1, st.length⟩ :: bs, .brk, rv1, {}, ex, w'⟩ := by
         vstep t3
         vstep t4
         vstep t5
         vstepx [Why.ofCode] t6
         exact Reach.refl _
-      obtain ⟨e3, hr3⟩ := handler_passes (P := P) (code := code) (pc := hp + handlerBodyOff m + len hb + 7) (junk := [])
-        (st := st) (a := o1) (b := o2) (c := o3) (bs := bs) (why := .brk) (by simp) (rv := rv1) (cur := {}) (ex := ex1) (w := w')
+      have hr3 := handler_passes (P := P) (code := code) (pc := hp + handlerBodyOff m + len hb + 7) (junk := [])
+        (st := st) (a := o1) (b := o2) (c := o3) (bs := bs) (why := .brk) (by simp) (rv := rv1) (cur := {}) (ex := ex) (w := w')
       exact ⟨_, ((hpre.trans hent).trans hstep).trans hr3, by simpa [Post] using (hasLoop_except ctx ▸ hlp)⟩
     | ret v =>
-      obtain ⟨pc1, junk, ex1, rfl⟩ := hp1.ret_eq
+      obtain ⟨pc1, junk, rfl⟩ := hp1.ret_eq
       have hent : Reach P code
-          ⟨pc1, junk ++ o1 :: o2 :: o3 :: st, ⟨.finally, ((hp + handlerBodyOff m + len hb + 3 : Nat) : Int), (o1 :: o2 :: o3 :: st).length⟩ :: ⟨.handler, -1, st.length⟩ :: bs, .ret, .int v, {}, ex1, w'⟩
-          ⟨hp + handlerBodyOff m + len hb + 3, Val.int 2 :: Val.int v :: o1 :: o2 :: o3 :: st, ⟨.handler, -1, st.length⟩ :: bs, .not, .int v, {}, ex1, w'⟩ := by
+          ⟨pc1, junk ++ o1 :: o2 :: o3 :: st, ⟨.finally, ((hp + handlerBodyOff m + len hb + 3 : Nat) : Int), (o1 :: o2 :: o3 :: st).length⟩ :: ⟨.handler, -1, st.length⟩ :: bs, .ret, .int v, {}, ex, w'⟩
+          ⟨hp + handlerBodyOff m + len hb + 3, Val.int 2 :: Val.int v :: o1 :: o2 :: o3 :: st, ⟨.handler, -1, st.length⟩ :: bs, .not, .int v, {}, ex, w'⟩ := by
         simpa [Why.code] using finally_takes (P := P) (code := code) (pc := pc1) (junk := junk) (st := o1 :: o2 :: o3 :: st)
-          (h := hp + handlerBodyOff m + len hb + 3) (bs := ⟨.handler, -1, st.length⟩ :: bs) (why := .ret) (rv := .int v) (cur := {}) (ex := ex1) (w := w') (Or.inr (Or.inl rfl))
+          (h := hp + handlerBodyOff m + len hb + 3) (bs := ⟨.handler, -1, st.length⟩ :: bs) (why := .ret) (rv := .int v) (cur := {}) (ex := ex) (w := w') (Or.inr (Or.inl rfl))
       have hstep : Reach P code
-          ⟨hp + handlerBodyOff m + len hb + 3, Val.int 2 :: Val.int v :: o1 :: o2 :: o3 :: st, ⟨.handler, -1, st.length⟩ :: bs, .not, .int v, {}, ex1, w'⟩
-          ⟨hp + handlerBodyOff m + len hb + 7, [] ++ o1 :: o2 :: o3 :: st, ⟨.handler, -1, st.length⟩ :: bs, .ret, .int v, {}, ex1, w'⟩ := by
+          ⟨hp + handlerBodyOff m + len hb + 3, Val.int 2 :: Val.int v :: o1 :: o2 :: o3 :: st, ⟨.handler, -1, st.length⟩ :: bs, .not, .int v, {}, ex, w'⟩
+          ⟨hp + handlerBodyOff m + len hb + 7, [] ++ o1 :: o2 :: o3 :: st, ⟨.handler, -1, st.length⟩ :: bs, .ret, .int v, {}, ex, w'⟩ := by
         vstep t3
         vstep t4
         vstep t5
         vstepx [Why.ofCode] t6
         exact Reach.refl _
-      obtain ⟨e3, hr3⟩ := handler_passes (P := P) (code := code) (pc := hp + handlerBodyOff m + len hb + 7) (junk := [])
-        (st := st) (a := o1) (b := o2) (c := o3) (bs := bs) (why := .ret) (by simp) (rv := .int v) (cur := {}) (ex := ex1) (w := w')
+      have hr3 := handler_passes (P := P) (code := code) (pc := hp + handlerBodyOff m + len hb + 7) (junk := [])
+        (st := st) (a := o1) (b := o2) (c := o3) (bs := bs) (why := .ret) (by simp) (rv := .int v) (cur := {}) (ex := ex) (w := w')
       exact ⟨_, ((hpre.trans hent).trans hstep).trans hr3, by simp [Post]⟩
     | cont =>
-      obtain ⟨pc1, s, ex1, hfl, rfl⟩ := hp1.cont_pending_eq (Or.inr rfl)
+      obtain ⟨pc1, s, hfl, rfl⟩ := hp1.cont_pending_eq (Or.inr rfl)
       have hent : Reach P code
-          ⟨pc1, [] ++ o1 :: o2 :: o3 :: st, ⟨.finally, ((hp + handlerBodyOff m + len hb + 3 : Nat) : Int), (o1 :: o2 :: o3 :: st).length⟩ :: ⟨.handler, -1, st.length⟩ :: bs, .cont, .int s, {}, ex1, w'⟩
-          ⟨hp + handlerBodyOff m + len hb + 3, Val.int 4 :: Val.int s :: o1 :: o2 :: o3 :: st, ⟨.handler, -1, st.length⟩ :: bs, .not, .int s, {}, ex1, w'⟩ := by
+          ⟨pc1, [] ++ o1 :: o2 :: o3 :: st, ⟨.finally, ((hp + handlerBodyOff m + len hb + 3 : Nat) : Int), (o1 :: o2 :: o3 :: st).length⟩ :: ⟨.handler, -1, st.length⟩ :: bs, .cont, .int s, {}, ex, w'⟩
+          ⟨hp + handlerBodyOff m + len hb + 3, Val.int 4 :: Val.int s :: o1 :: o2 :: o3 :: st, ⟨.handler, -1, st.length⟩ :: bs, .not, .int s, {}, ex, w'⟩ := by
         simpa [Why.code] using finally_takes (P := P) (code := code) (pc := pc1) (junk := []) (st := o1 :: o2 :: o3 :: st)
-          (h := hp + handlerBodyOff m + len hb + 3) (bs := ⟨.handler, -1, st.length⟩ :: bs) (why := .cont) (rv := .int s) (cur := {}) (ex := ex1) (w := w') (Or.inr (Or.inr rfl))
+          (h := hp + handlerBodyOff m + len hb + 3) (bs := ⟨.handler, -1, st.length⟩ :: bs) (why := .cont) (rv := .int s) (cur := {}) (ex := ex) (w := w') (Or.inr (Or.inr rfl))
       have hstep : Reach P code
-          ⟨hp + handlerBodyOff m + len hb + 3, Val.int 4 :: Val.int s :: o1 :: o2 :: o3 :: st, ⟨.handler, -1, st.length⟩ :: bs, .not, .int s, {}, ex1, w'⟩
-          ⟨hp + handlerBodyOff m + len hb + 7, [] ++ o1 :: o2 :: o3 :: st, ⟨.handler, -1, st.length⟩ :: bs, .cont, .int s, {}, ex1, w'⟩ := by
+          ⟨hp + handlerBodyOff m + len hb + 3, Val.int 4 :: Val.int s :: o1 :: o2 :: o3 :: st, ⟨.handler, -1, st.length⟩ :: bs, .not, .int s, {}, ex, w'⟩
+          ⟨hp + handlerBodyOff m + len hb + 7, [] ++ o1 :: o2 :: o3 :: st, ⟨.handler, -1, st.length⟩ :: bs, .cont, .int s, {}, ex, w'⟩ := by
         vstep t3
         vstep t4
         vstep t5
         vstepx [Why.ofCode] t6
         exact Reach.refl _
-      obtain ⟨e3, hr3⟩ := handler_passes (P := P) (code := code) (pc := hp + handlerBodyOff m + len hb + 7) (junk := [])
-        (st := st) (a := o1) (b := o2) (c := o3) (bs := bs) (why := .cont) (by simp) (rv := .int s) (cur := {}) (ex := ex1) (w := w')
+      have hr3 := handler_passes (P := P) (code := code) (pc := hp + handlerBodyOff m + len hb + 7) (junk := [])
+        (st := st) (a := o1) (b := o2) (c := o3) (bs := bs) (why := .cont) (by simp) (rv := .int s) (cur := {}) (ex := ex) (w := w')
       obtain ⟨vm4, hr4, hp4⟩ := cont_settle (P := P) (code := code) (ctx := ctx) (x := .except) (Or.inr rfl)
-        (pc := hp + handlerBodyOff m + len hb + 7) (s := s) (e := endL) (st := st) (bs := bs) (ex := e3) (w := w') hfl hinv
+        (pc := hp + handlerBodyOff m + len hb + 7) (s := s) (e := endL) (st := st) (bs := bs) (ex := savedOf o1 o2 o3) (w := w') hfl hinv
       exact ⟨vm4, (((hpre.trans hent).trans hstep).trans hr3).trans hr4, hp4⟩
     | exc c2 l2 =>
-      obtain ⟨pc1, junk, rv1, ex1, rfl⟩ := hp1.exc_eq
+      obtain ⟨pc1, junk, rv1, rfl⟩ := hp1.exc_eq
       have hent := handler_entry (P := P) (code := code) (pc := pc1) (junk := junk) (st := o1 :: o2 :: o3 :: st)
         (h := hp + handlerBodyOff m + len hb + 3) (bs := ⟨.handler, -1, st.length⟩ :: bs) (k := .finally) (Or.inl rfl)
-        (rv := rv1) (cur := ⟨some c2, .excv c2, some [l2]⟩) (ex := ex1) (w := w')
+        (rv := rv1) (cur := ⟨some c2, .excv c2, some [l2]⟩) (ex := ex) (w := w')
       have hstep : Reach P code
           ⟨hp + handlerBodyOff m + len hb + 3,
-           typeVal (some c2) :: Val.excv c2 :: .tb (some [l2]) :: typeVal ex1.type :: ex1.value :: .tb ex1.tb :: o1 :: o2 :: o3 :: st,
+           typeVal (some c2) :: Val.excv c2 :: .tb (some [l2]) :: typeVal ex.type :: ex.value :: .tb ex.tb :: o1 :: o2 :: o3 :: st,
            ⟨.handler, -1, (o1 :: o2 :: o3 :: st).length⟩ :: ⟨.handler, -1, st.length⟩ :: bs, .not, rv1, {}, ⟨some c2, .excv c2, some [l2]⟩, w'⟩
-          ⟨hp + handlerBodyOff m + len hb + 7, [] ++ typeVal ex1.type :: ex1.value :: .tb ex1.tb :: o1 :: o2 :: o3 :: st,
+          ⟨hp + handlerBodyOff m + len hb + 7, [] ++ typeVal ex.type :: ex.value :: .tb ex.tb :: o1 :: o2 :: o3 :: st,
            ⟨.handler, -1, (o1 :: o2 :: o3 :: st).length⟩ :: ⟨.handler, -1, st.length⟩ :: bs, .exception, rv1,
            ⟨some c2, .excv c2, some [l2]⟩, ⟨some c2, .excv c2, some [l2]⟩, w'⟩ := by
         vstep t3
@@ -1533,12 +1614,12 @@ theorem sim_handler (P : Prims W) (code : Code) (f : Nat) (ihS : SimS P code f) 
         vstep t5
         vstepx [typeVal_some, Val.asTb] t6
         exact Reach.refl _
-      obtain ⟨e3, hr3⟩ := handler_passes (P := P) (code := code) (pc := hp + handlerBodyOff m + len hb + 7) (junk := [])
-        (st := o1 :: o2 :: o3 :: st) (a := typeVal ex1.type) (b := ex1.value) (c := .tb ex1.tb) (bs := ⟨.handler, -1, st.length⟩ :: bs)
+      have hr3 := handler_passes (P := P) (code := code) (pc := hp + handlerBodyOff m + len hb + 7) (junk := [])
+        (st := o1 :: o2 :: o3 :: st) (a := typeVal ex.type) (b := ex.value) (c := .tb ex.tb) (bs := ⟨.handler, -1, st.length⟩ :: bs)
         (why := .exception) (by simp) (rv := rv1) (cur := ⟨some c2, .excv c2, some [l2]⟩) (ex := ⟨some c2, .excv c2, some [l2]⟩) (w := w')
-      obtain ⟨e4, hr4⟩ := handler_passes (P := P) (code := code) (pc := hp + handlerBodyOff m + len hb + 7) (junk := [])
+      have hr4 := handler_passes (P := P) (code := code) (pc := hp + handlerBodyOff m + len hb + 7) (junk := [])
         (st := st) (a := o1) (b := o2) (c := o3) (bs := bs)
-        (why := .exception) (by simp) (rv := rv1) (cur := ⟨some c2, .excv c2, some [l2]⟩) (ex := e3) (w := w')
+        (why := .exception) (by simp) (rv := rv1) (cur := ⟨some c2, .excv c2, some [l2]⟩) (ex := savedOf (typeVal ex.type) ex.value (.tb ex.tb)) (w := w')
       exact ⟨_, ((((hpre.trans hent).trans hstep).trans hr3).trans hr4), by simp [Post]⟩
   · -- plain `except C:` : the body runs with the EXCEPT_HANDLER block on top
     have hn' : m.named = false := by simpa using hn
@@ -1559,8 +1640,8 @@ theorem sim_handler (P : Prims W) (code : Code) (f : Nat) (ihS : SimS P code f) 
     simp only [List.getElem_cons_zero] at t0
     have hpos : hp + (1 + (classesExpr m).length + 2 + 1) + 2 = hp + handlerBodyOff m := by rw [hoff]; omega
     rw [hpos] at hB
-    obtain ⟨vm1, hr1, hp1⟩ := ihS hb w1 w' o hx hcov (.except :: ctx) (hp + handlerBodyOff m) m.ln
-      ([] ++ o1 :: o2 :: o3 :: st) (⟨.handler, -1, st.length⟩ :: bs) rv ex hce hB (hinvX _)
+    obtain ⟨vm1, hr1, hp1⟩ := ihS hb w1 w' o hd hx hcov (.except :: ctx) (hp + handlerBodyOff m) m.ln
+      ([] ++ o1 :: o2 :: o3 :: st) (⟨.handler, -1, st.length⟩ :: bs) rv ex hex hce hB (hinvX _)
     have hpre : Reach P code ⟨hp + (1 + (classesExpr m).length + 2) + 1, v2 :: v3 :: o1 :: o2 :: o3 :: st,
         ⟨.handler, -1, st.length⟩ :: bs, .not, rv, {}, ex, w1⟩ vm1 := by
       vstep h0
@@ -1573,19 +1654,19 @@ theorem sim_handler (P : Prims W) (code : Code) (f : Nat) (ihS : SimS P code f) 
       exact this.nth 0 (by simp)
     cases o with
     | normal =>
-      obtain ⟨rv1, ex1, rfl⟩ := hp1.normal_eq
-      obtain ⟨e3, he3⟩ := unwindExceptHandler_junk [] o1 o2 o3 st
+      obtain ⟨rv1, rfl⟩ := hp1.normal_eq
+      have he3 := unwindExceptHandler_junk [] o1 o2 o3 st
       simp only [List.nil_append] at he3
-      refine ⟨⟨endL, st, bs, .not, rv1, {}, e3, w'⟩, hpre.trans ?_, by simp [Post]⟩
+      refine ⟨⟨endL, st, bs, .not, rv1, {}, savedOf o1 o2 o3, w'⟩, hpre.trans ?_, by simp [Post]⟩
       vstepx [he3] t0
       vstep hjf'
       exact Reach.refl _
     | cont =>
-      obtain ⟨pc1, s, ex1, hfl, rfl⟩ := hp1.cont_pending_eq (Or.inr rfl)
-      obtain ⟨e3, hr3⟩ := handler_passes (P := P) (code := code) (pc := pc1) (junk := [])
-        (st := st) (a := o1) (b := o2) (c := o3) (bs := bs) (why := .cont) (by simp) (rv := .int s) (cur := {}) (ex := ex1) (w := w')
+      obtain ⟨pc1, s, hfl, rfl⟩ := hp1.cont_pending_eq (Or.inr rfl)
+      have hr3 := handler_passes (P := P) (code := code) (pc := pc1) (junk := [])
+        (st := st) (a := o1) (b := o2) (c := o3) (bs := bs) (why := .cont) (by simp) (rv := .int s) (cur := {}) (ex := ex) (w := w')
       obtain ⟨vm4, hr4, hp4⟩ := cont_settle (P := P) (code := code) (ctx := ctx) (x := .except) (Or.inr rfl)
-        (pc := pc1) (s := s) (e := endL) (st := st) (bs := bs) (ex := e3) (w := w') hfl hinv
+        (pc := pc1) (s := s) (e := endL) (st := st) (bs := bs) (ex := savedOf o1 o2 o3) (w := w') hfl hinv
       exact ⟨vm4, (hpre.trans hr3).trans hr4, hp4⟩
     | brk =>
       obtain ⟨vm3, hr3, hp3⟩ := abrupt_through_handler (P := P) (code := code) (ctx2 := ctx) (e2 := endL) (X := [])
@@ -1616,13 +1697,13 @@ theorem reraise {P : Prims W} {code : Code} {ctx : Ctx} {n e ln : Nat} (hef : co
     (c : Cls) (l : Nat) (t1 t2 t3 : Val) (st : List Val) (bs : List Block) (rv : Val) (ex : ExcInfo) (w : W) :
     ∃ vm', Reach P code ⟨n, Val.cls c :: Val.excv c :: Val.tb (some [l]) :: t1 :: t2 :: t3 :: st,
                           ⟨.handler, -1, st.length⟩ :: bs, .not, rv, {}, ex, w⟩ vm' ∧
-           Post ctx e st bs (.exc c l) w vm' := by
+           Post ctx e st bs (savedOf t1 t2 t3) (.exc c l) w vm' := by
   have hstep : Reach P code ⟨n, Val.cls c :: Val.excv c :: Val.tb (some [l]) :: t1 :: t2 :: t3 :: st,
         ⟨.handler, -1, st.length⟩ :: bs, .not, rv, {}, ex, w⟩
       ⟨n + 1, [] ++ t1 :: t2 :: t3 :: st, ⟨.handler, -1, st.length⟩ :: bs, .exception, rv, ⟨some c, .excv c, some [l]⟩, ex, w⟩ := by
     vstepx [Val.asTb] hef
     exact Reach.refl _
-  obtain ⟨e3, hr3⟩ := handler_passes (P := P) (code := code) (pc := n + 1) (junk := [])
+  have hr3 := handler_passes (P := P) (code := code) (pc := n + 1) (junk := [])
     (st := st) (a := t1) (b := t2) (c := t3) (bs := bs) (why := .exception) (by simp) (rv := rv)
     (cur := ⟨some c, .excv c, some [l]⟩) (ex := ex) (w := w)
   exact ⟨_, hstep.trans hr3, by simp [Post]⟩
@@ -1634,10 +1715,10 @@ theorem sim_clause (P : Prims W) (code : Code) (f : Nat) (ihS : SimS P code f) (
     (hc : CodeAt code hp (compHandler m hp cur (compS (.except :: ctx) (hp + handlerBodyOff m) m.ln hb) bl endL))
     (hce : compErr (.except :: ctx) (hp + handlerBodyOff m) hb = none)
     (st : List Val) (bs : List Block) (hinv : CtxInv ctx bs)
-    (c : Cls) (v2 v3 o1 o2 o3 : Val) (rv : Val) (ex : ExcInfo) (w1 : W) :
-    (catches m.classes c = true → ∀ w' o, execT P f (.run hb) w1 = some (w', o) →
+    (c : Cls) (v2 v3 o1 o2 o3 : Val) (rv : Val) (ex : ExcInfo) (w1 : W) (hd : Handled) (hex : ex = hdInfo hd) :
+    (catches m.classes c = true → ∀ w' o, execT P f (.run hb) w1 hd = some (w', o) →
       ∃ vm', Reach P code ⟨hp, Val.cls c :: v2 :: v3 :: o1 :: o2 :: o3 :: st, ⟨.handler, -1, st.length⟩ :: bs, .not, rv, {}, ex, w1⟩ vm' ∧
-             Post ctx endL st bs o w' vm') ∧
+             Post ctx endL st bs (savedOf o1 o2 o3) o w' vm') ∧
     (catches m.classes c = false →
       Reach P code ⟨hp, Val.cls c :: v2 :: v3 :: o1 :: o2 :: o3 :: st, ⟨.handler, -1, st.length⟩ :: bs, .not, rv, {}, ex, w1⟩
         ⟨hp + handlerLen m (len hb), Val.cls c :: v2 :: v3 :: o1 :: o2 :: o3 :: st, ⟨.handler, -1, st.length⟩ :: bs, .not, rv, {}, ex, w1⟩) := by
@@ -1648,14 +1729,14 @@ theorem sim_clause (P : Prims W) (code : Code) (f : Nat) (ihS : SimS P code f) (
   constructor
   · intro hcat w' o hx
     rw [if_pos hcat] at ht
-    obtain ⟨vm', hr, hp'⟩ := sim_handler P code f ihS m hb ctx hp cur bl endL hcov hc hce st bs hinv w1 w' o hx v2 v3 o1 o2 o3 rv ex
+    obtain ⟨vm', hr, hp'⟩ := sim_handler P code f ihS m hb ctx hp cur bl endL hcov hc hce st bs hinv w1 w' o hd hx v2 v3 o1 o2 o3 rv ex hex
     exact ⟨vm', ht.trans hr, hp'⟩
   · intro hcat
     rw [hcat] at ht
     simp only [Bool.false_eq_true, if_false, compS_length] at ht
     exact ht
-def elseOrPass (P : Prims W) (f : Nat) (o' : Stmt) (w1 : W) : Outcome → Option (W × Outcome)
-  | .normal => execT P f (.run o') w1
+def elseOrPass (P : Prims W) (f : Nat) (o' : Stmt) (w1 : W) (hd : Handled) : Outcome → Option (W × Outcome)
+  | .normal => execT P f (.run o') w1 hd
   | r => some (w1, r)
 
 /-- what the body of a `try/except` leaves for the statement, when no exception is pending:
@@ -1665,18 +1746,18 @@ theorem tryE_nonexc (P : Prims W) (code : Code) (f : Nat) (ihS : SimS P code f) 
     (hpb : code[pcB]? = some (Instr.popBlock, l0)) (hjo : code[pcB + 1]? = some (Instr.jumpForward orelse, l0))
     (hO : CodeAt code orelse (compS (.except :: ctx) orelse l2 o'))
     (hco : compErr (.except :: ctx) orelse o' = none) (hcovo : Cov o' = true)
-    (o1 : Outcome) (hne : ∀ c l, o1 ≠ .exc c l) (w1 w' : W) (o : Outcome)
-    (hx : elseOrPass P f o' w1 o1 = some (w', o))
+    (o1 : Outcome) (hne : ∀ c l, o1 ≠ .exc c l) (w1 w' : W) (o : Outcome) (hd : Handled) (ex : ExcInfo) (hex : ex = hdInfo hd)
+    (hx : elseOrPass P f o' w1 hd o1 = some (w', o))
     (vm1 : VM W)
-    (hp1 : Post (.except :: ctx) pcB st (⟨.except, (excL : Int), st.length⟩ :: bs) o1 w1 vm1) :
-    ∃ vm', Reach P code vm1 vm' ∧ Post ctx (orelse + len o') st bs o w' vm' := by
+    (hp1 : Post (.except :: ctx) pcB st (⟨.except, (excL : Int), st.length⟩ :: bs) ex o1 w1 vm1) :
+    ∃ vm', Reach P code vm1 vm' ∧ Post ctx (orelse + len o') st bs ex o w' vm' := by
   have hinvX : CtxInv (.except :: ctx) bs := by intro s rest hh; simp at hh
   cases o1 with
   | exc c l => exact absurd rfl (hne c l)
   | normal =>
     simp only [elseOrPass] at hx
-    obtain ⟨rv1, ex1, rfl⟩ := hp1.normal_eq
-    obtain ⟨vm2, hr2, hp2⟩ := ihS o' w1 w' o hx hcovo (.except :: ctx) orelse l2 st bs rv1 ex1 hco hO hinvX
+    obtain ⟨rv1, rfl⟩ := hp1.normal_eq
+    obtain ⟨vm2, hr2, hp2⟩ := ihS o' w1 w' o hd hx hcovo (.except :: ctx) orelse l2 st bs rv1 ex hex hco hO hinvX
     obtain ⟨vm3, hr3, hp3⟩ := Post.lift (P := P) (code := code) (Or.inr rfl) hinv hp2
     refine ⟨vm3, ?_, hp3⟩
     vstep hpb
@@ -1685,31 +1766,31 @@ theorem tryE_nonexc (P : Prims W) (code : Code) (f : Nat) (ihS : SimS P code f) 
   | brk =>
     simp only [elseOrPass, Option.some.injEq, Prod.mk.injEq] at hx
     obtain ⟨rfl, rfl⟩ := hx
-    obtain ⟨hlp, pc1, junk, rv1, ex1, rfl⟩ := hp1.brk_eq
+    obtain ⟨hlp, pc1, junk, rv1, rfl⟩ := hp1.brk_eq
     exact ⟨_, except_passes (Or.inr (Or.inl rfl)), by simpa [Post] using (hasLoop_except ctx ▸ hlp)⟩
   | ret v =>
     simp only [elseOrPass, Option.some.injEq, Prod.mk.injEq] at hx
     obtain ⟨rfl, rfl⟩ := hx
-    obtain ⟨pc1, junk, ex1, rfl⟩ := hp1.ret_eq
+    obtain ⟨pc1, junk, rfl⟩ := hp1.ret_eq
     exact ⟨_, except_passes (Or.inl rfl), by simp [Post]⟩
   | cont =>
     simp only [elseOrPass, Option.some.injEq, Prod.mk.injEq] at hx
     obtain ⟨rfl, rfl⟩ := hx
-    obtain ⟨pc1, s, ex1, hfl, rfl⟩ := hp1.cont_pending_eq (Or.inr rfl)
+    obtain ⟨pc1, s, hfl, rfl⟩ := hp1.cont_pending_eq (Or.inr rfl)
     obtain ⟨vm4, hr4, hp4⟩ := cont_settle (P := P) (code := code) (ctx := ctx) (x := .except) (Or.inr rfl)
-      (pc := pc1) (s := s) (e := orelse + len o') (st := st) (bs := bs) (ex := ex1) (w := w1) hfl hinv
+      (pc := pc1) (s := s) (e := orelse + len o') (st := st) (bs := bs) (ex := ex) (w := w1) hfl hinv
     refine ⟨vm4, ?_, hp4⟩
     exact (except_passes (junk := []) (Or.inr (Or.inr rfl))).trans hr4
 
 theorem sim_tryE (P : Prims W) (code : Code) (f : Nat) (ihS : SimS P code f) (ln : Nat) (b : Stmt) (m1 : Matcher) (h1 : Stmt)
     (m2 : Option Matcher) (h2 o' : Stmt)
-    (w w' : W) (o : Outcome) (h : execT P (f+1) (.run (.tryE ln b m1 h1 m2 h2 o')) w = some (w', o))
+    (w w' : W) (o : Outcome) (hd : Handled) (h : execT P (f+1) (.run (.tryE ln b m1 h1 m2 h2 o')) w hd = some (w', o))
     (hcovb : Cov b = true) (hcov1 : Cov h1 = true) (hcov2 : Cov h2 = true) (hcovo : Cov o' = true)
-    (ctx : Ctx) (pc cur : Nat) (st : List Val) (bs : List Block) (rv : Val) (ex : ExcInfo)
+    (ctx : Ctx) (pc cur : Nat) (st : List Val) (bs : List Block) (rv : Val) (ex : ExcInfo) (hex : ex = hdInfo hd)
     (hce : compErr ctx pc (.tryE ln b m1 h1 m2 h2 o') = none)
     (hc : CodeAt code pc (compS ctx pc cur (.tryE ln b m1 h1 m2 h2 o'))) (hinv : CtxInv ctx bs) :
     ∃ vm', Reach P code ⟨pc, st, bs, .not, rv, {}, ex, w⟩ vm' ∧
-      Post ctx (pc + len (.tryE ln b m1 h1 m2 h2 o')) st bs o w' vm' := by
+      Post ctx (pc + len (.tryE ln b m1 h1 m2 h2 o')) st bs ex o w' vm' := by
   have hinvX : ∀ bsX, CtxInv (.except :: ctx) bsX := by intro bsX s rest hh; simp at hh
   unfold execT at h
   simp only at h
@@ -1734,27 +1815,27 @@ theorem sim_tryE (P : Prims W) (code : Code) (f : Nat) (ihS : SimS P code f) (ln
     simp only [List.getElem_cons_zero, List.getElem_cons_succ] at h0 hpb hjo hef
     have hlen : pc + 1 + len b + 2 + handlerLen m1 (len h1) + 0 + 1 + len o' = pc + len (.tryE ln b m1 h1 none h2 o') := by
       simp [len]; omega
-    cases hb : execT P f (.run b) w with
+    cases hb : execT P f (.run b) w hd with
     | none => rw [hb] at h; simp at h
     | some r1 =>
       obtain ⟨w1, o1⟩ := r1
       rw [hb] at h
-      obtain ⟨vm1, hr1, hp1⟩ := ihS b w w1 o1 hb hcovb (.except :: ctx) (pc + 1) ln st
-        (⟨.except, ((pc + 1 + len b + 2 : Nat) : Int), st.length⟩ :: bs) rv ex hcb (hBd.cast (by omega)) (hinvX _)
+      obtain ⟨vm1, hr1, hp1⟩ := ihS b w w1 o1 hd hb hcovb (.except :: ctx) (pc + 1) ln st
+        (⟨.except, ((pc + 1 + len b + 2 : Nat) : Int), st.length⟩ :: bs) rv ex hex hcb (hBd.cast (by omega)) (hinvX _)
       have hpre : Reach P code ⟨pc, st, bs, .not, rv, {}, ex, w⟩ vm1 := by
         vstepx [pushBlock] h0
         exact hr1
       have hnon : ∀ (o1' : Outcome), (∀ c l, o1' ≠ .exc c l) →
-          elseOrPass P f o' w1 o1' = some (w', o) →
-          Post (.except :: ctx) (pc + 1 + len b) st (⟨.except, ((pc + 1 + len b + 2 : Nat) : Int), st.length⟩ :: bs) o1' w1 vm1 →
+          elseOrPass P f o' w1 hd o1' = some (w', o) →
+          Post (.except :: ctx) (pc + 1 + len b) st (⟨.except, ((pc + 1 + len b + 2 : Nat) : Int), st.length⟩ :: bs) ex o1' w1 vm1 →
           ∃ vm', Reach P code ⟨pc, st, bs, .not, rv, {}, ex, w⟩ vm' ∧
-            Post ctx (pc + len (.tryE ln b m1 h1 none h2 o')) st bs o w' vm' := by
+            Post ctx (pc + len (.tryE ln b m1 h1 none h2 o')) st bs ex o w' vm' := by
         intro o1' hne hx hp1'
         obtain ⟨vm3, hr3, hp3⟩ := tryE_nonexc P code f ihS ctx o' (pc + 1 + len b) (pc + 1 + len b + 2)
           (pc + 1 + len b + 2 + handlerLen m1 (len h1) + 0 + 1) (endLine ln b) (endLine m1.ln h1) st bs hinv
           (by have := hpb; rwa [show pc + (0 + 1 + len b) + 0 = pc + 1 + len b by omega] at this)
           (by have := hjo; rwa [show pc + (0 + 1 + len b) + 1 = pc + 1 + len b + 1 by omega] at this)
-          (hO.cast (by omega)) hco hcovo o1' hne w1 w' o hx vm1 hp1'
+          (hO.cast (by omega)) hco hcovo o1' hne w1 w' o hd ex hex hx vm1 hp1'
         exact ⟨vm3, hpre.trans hr3, hlen ▸ hp3⟩
       cases o1 with
       | normal => exact hnon .normal (by intros; simp) h hp1
@@ -1763,17 +1844,17 @@ theorem sim_tryE (P : Prims W) (code : Code) (f : Nat) (ihS : SimS P code f) (ln
       | ret v => exact hnon (.ret v) (by intros; simp) h hp1
       | exc c l =>
         simp only at h
-        obtain ⟨pc1, junk, rv1, ex1, rfl⟩ := hp1.exc_eq
+        obtain ⟨pc1, junk, rv1, rfl⟩ := hp1.exc_eq
         have hent := handler_entry (P := P) (code := code) (pc := pc1) (junk := junk) (st := st) (h := pc + 1 + len b + 2)
-          (bs := bs) (k := .except) (Or.inr rfl) (rv := rv1) (cur := ⟨some c, .excv c, some [l]⟩) (ex := ex1) (w := w1)
+          (bs := bs) (k := .except) (Or.inr rfl) (rv := rv1) (cur := ⟨some c, .excv c, some [l]⟩) (ex := ex) (w := w1)
         have hpre2 := hpre.trans hent
         obtain ⟨hyes, hno⟩ := sim_clause P code f ihS m1 h1 ctx (pc + 1 + len b + 2) (endLine ln b) (endLine m1.ln h1)
           (pc + 1 + len b + 2 + handlerLen m1 (len h1) + 0 + 1 + len o') hcov1 (hH1.cast (by omega)) hc1 st bs hinv c
-          (Val.excv c) (Val.tb (some [l])) (typeVal ex1.type) ex1.value (Val.tb ex1.tb) rv1 ⟨some c, .excv c, some [l]⟩ w1
+          (Val.excv c) (Val.tb (some [l])) (typeVal ex.type) ex.value (Val.tb ex.tb) rv1 ⟨some c, .excv c, some [l]⟩ w1 (some (c, l)) rfl
         by_cases hcat : catches m1.classes c = true
         · rw [if_pos hcat] at h
           obtain ⟨vm3, hr3, hp3⟩ := hyes hcat w' o h
-          exact ⟨vm3, hpre2.trans hr3, hlen ▸ hp3⟩
+          exact ⟨vm3, hpre2.trans hr3, hlen ▸ hp3.saved⟩
         · rw [if_neg hcat] at h
           simp only [Option.some.injEq, Prod.mk.injEq] at h
           obtain ⟨rfl, rfl⟩ := h
@@ -1781,8 +1862,8 @@ theorem sim_tryE (P : Prims W) (code : Code) (f : Nat) (ihS : SimS P code f) (ln
           obtain ⟨vm3, hr3, hp3⟩ := reraise (P := P) (code := code) (ctx := ctx)
             (n := pc + 1 + len b + 2 + handlerLen m1 (len h1)) (e := pc + len (.tryE ln b m1 h1 none h2 o')) (ln := endLine m1.ln h1)
             (by have := hef; rwa [show pc + (0 + 1 + len b + (0 + 1 + 1) + handlerLen m1 (len h1) + 0) + 0 = pc + 1 + len b + 2 + handlerLen m1 (len h1) by omega] at this)
-            c l (typeVal ex1.type) ex1.value (Val.tb ex1.tb) st bs rv1 ⟨some c, .excv c, some [l]⟩ w1
-          exact ⟨vm3, (hpre2.trans (hno hcf)).trans hr3, hp3⟩
+            c l (typeVal ex.type) ex.value (Val.tb ex.tb) st bs rv1 ⟨some c, .excv c, some [l]⟩ w1
+          exact ⟨vm3, (hpre2.trans (hno hcf)).trans hr3, hp3.saved⟩
   | some m =>
     simp only [compErr] at hce
     obtain ⟨hcb, hce⟩ := orElse_none hce
@@ -1804,27 +1885,27 @@ theorem sim_tryE (P : Prims W) (code : Code) (f : Nat) (ihS : SimS P code f) (ln
     simp only [List.getElem_cons_zero, List.getElem_cons_succ] at h0 hpb hjo hef
     have hlen : pc + 1 + len b + 2 + handlerLen m1 (len h1) + handlerLen m (len h2) + 1 + len o' = pc + len (.tryE ln b m1 h1 (some m) h2 o') := by
       simp [len]; omega
-    cases hb : execT P f (.run b) w with
+    cases hb : execT P f (.run b) w hd with
     | none => rw [hb] at h; simp at h
     | some r1 =>
       obtain ⟨w1, o1⟩ := r1
       rw [hb] at h
-      obtain ⟨vm1, hr1, hp1⟩ := ihS b w w1 o1 hb hcovb (.except :: ctx) (pc + 1) ln st
-        (⟨.except, ((pc + 1 + len b + 2 : Nat) : Int), st.length⟩ :: bs) rv ex hcb (hBd.cast (by omega)) (hinvX _)
+      obtain ⟨vm1, hr1, hp1⟩ := ihS b w w1 o1 hd hb hcovb (.except :: ctx) (pc + 1) ln st
+        (⟨.except, ((pc + 1 + len b + 2 : Nat) : Int), st.length⟩ :: bs) rv ex hex hcb (hBd.cast (by omega)) (hinvX _)
       have hpre : Reach P code ⟨pc, st, bs, .not, rv, {}, ex, w⟩ vm1 := by
         vstepx [pushBlock] h0
         exact hr1
       have hnon : ∀ (o1' : Outcome), (∀ c l, o1' ≠ .exc c l) →
-          elseOrPass P f o' w1 o1' = some (w', o) →
-          Post (.except :: ctx) (pc + 1 + len b) st (⟨.except, ((pc + 1 + len b + 2 : Nat) : Int), st.length⟩ :: bs) o1' w1 vm1 →
+          elseOrPass P f o' w1 hd o1' = some (w', o) →
+          Post (.except :: ctx) (pc + 1 + len b) st (⟨.except, ((pc + 1 + len b + 2 : Nat) : Int), st.length⟩ :: bs) ex o1' w1 vm1 →
           ∃ vm', Reach P code ⟨pc, st, bs, .not, rv, {}, ex, w⟩ vm' ∧
-            Post ctx (pc + len (.tryE ln b m1 h1 (some m) h2 o')) st bs o w' vm' := by
+            Post ctx (pc + len (.tryE ln b m1 h1 (some m) h2 o')) st bs ex o w' vm' := by
         intro o1' hne hx hp1'
         obtain ⟨vm3, hr3, hp3⟩ := tryE_nonexc P code f ihS ctx o' (pc + 1 + len b) (pc + 1 + len b + 2)
           (pc + 1 + len b + 2 + handlerLen m1 (len h1) + handlerLen m (len h2) + 1) (endLine ln b) (endLine m.ln h2) st bs hinv
           (by have := hpb; rwa [show pc + (0 + 1 + len b) + 0 = pc + 1 + len b by omega] at this)
           (by have := hjo; rwa [show pc + (0 + 1 + len b) + 1 = pc + 1 + len b + 1 by omega] at this)
-          (hO.cast (by omega)) hco hcovo o1' hne w1 w' o hx vm1 hp1'
+          (hO.cast (by omega)) hco hcovo o1' hne w1 w' o hd ex hex hx vm1 hp1'
         exact ⟨vm3, hpre.trans hr3, hlen ▸ hp3⟩
       cases o1 with
       | normal => exact hnon .normal (by intros; simp) h hp1
@@ -1833,26 +1914,26 @@ theorem sim_tryE (P : Prims W) (code : Code) (f : Nat) (ihS : SimS P code f) (ln
       | ret v => exact hnon (.ret v) (by intros; simp) h hp1
       | exc c l =>
         simp only at h
-        obtain ⟨pc1, junk, rv1, ex1, rfl⟩ := hp1.exc_eq
+        obtain ⟨pc1, junk, rv1, rfl⟩ := hp1.exc_eq
         have hent := handler_entry (P := P) (code := code) (pc := pc1) (junk := junk) (st := st) (h := pc + 1 + len b + 2)
-          (bs := bs) (k := .except) (Or.inr rfl) (rv := rv1) (cur := ⟨some c, .excv c, some [l]⟩) (ex := ex1) (w := w1)
+          (bs := bs) (k := .except) (Or.inr rfl) (rv := rv1) (cur := ⟨some c, .excv c, some [l]⟩) (ex := ex) (w := w1)
         have hpre2 := hpre.trans hent
         obtain ⟨hyes, hno⟩ := sim_clause P code f ihS m1 h1 ctx (pc + 1 + len b + 2) (endLine ln b) (endLine m1.ln h1)
           (pc + 1 + len b + 2 + handlerLen m1 (len h1) + handlerLen m (len h2) + 1 + len o') hcov1 (hH1.cast (by omega)) hc1 st bs hinv c
-          (Val.excv c) (Val.tb (some [l])) (typeVal ex1.type) ex1.value (Val.tb ex1.tb) rv1 ⟨some c, .excv c, some [l]⟩ w1
+          (Val.excv c) (Val.tb (some [l])) (typeVal ex.type) ex.value (Val.tb ex.tb) rv1 ⟨some c, .excv c, some [l]⟩ w1 (some (c, l)) rfl
         obtain ⟨hyes2, hno2⟩ := sim_clause P code f ihS m h2 ctx (pc + 1 + len b + 2 + handlerLen m1 (len h1)) (endLine m1.ln h1) (endLine m.ln h2)
           (pc + 1 + len b + 2 + handlerLen m1 (len h1) + handlerLen m (len h2) + 1 + len o') hcov2 (hH2.cast (by omega)) hc2 st bs hinv c
-          (Val.excv c) (Val.tb (some [l])) (typeVal ex1.type) ex1.value (Val.tb ex1.tb) rv1 ⟨some c, .excv c, some [l]⟩ w1
+          (Val.excv c) (Val.tb (some [l])) (typeVal ex.type) ex.value (Val.tb ex.tb) rv1 ⟨some c, .excv c, some [l]⟩ w1 (some (c, l)) rfl
         by_cases hcat : catches m1.classes c = true
         · rw [if_pos hcat] at h
           obtain ⟨vm3, hr3, hp3⟩ := hyes hcat w' o h
-          exact ⟨vm3, hpre2.trans hr3, hlen ▸ hp3⟩
+          exact ⟨vm3, hpre2.trans hr3, hlen ▸ hp3.saved⟩
         · rw [if_neg hcat] at h
           have hcf : catches m1.classes c = false := by simpa using hcat
           by_cases hcat2 : catches m.classes c = true
           · rw [if_pos hcat2] at h
             obtain ⟨vm3, hr3, hp3⟩ := hyes2 hcat2 w' o h
-            exact ⟨vm3, (hpre2.trans (hno hcf)).trans hr3, hlen ▸ hp3⟩
+            exact ⟨vm3, (hpre2.trans (hno hcf)).trans hr3, hlen ▸ hp3.saved⟩
           · rw [if_neg hcat2] at h
             simp only [Option.some.injEq, Prod.mk.injEq] at h
             obtain ⟨rfl, rfl⟩ := h
@@ -1860,43 +1941,45 @@ theorem sim_tryE (P : Prims W) (code : Code) (f : Nat) (ihS : SimS P code f) (ln
             obtain ⟨vm3, hr3, hp3⟩ := reraise (P := P) (code := code) (ctx := ctx)
               (n := pc + 1 + len b + 2 + handlerLen m1 (len h1) + handlerLen m (len h2)) (e := pc + len (.tryE ln b m1 h1 (some m) h2 o')) (ln := endLine m.ln h2)
               (by have := hef; rwa [show pc + (0 + 1 + len b + (0 + 1 + 1) + handlerLen m1 (len h1) + handlerLen m (len h2)) + 0 = pc + 1 + len b + 2 + handlerLen m1 (len h1) + handlerLen m (len h2) by omega] at this)
-              c l (typeVal ex1.type) ex1.value (Val.tb ex1.tb) st bs rv1 ⟨some c, .excv c, some [l]⟩ w1
-            exact ⟨vm3, ((hpre2.trans (hno hcf)).trans (hno2 hcf2)).trans hr3, hp3⟩
+              c l (typeVal ex.type) ex.value (Val.tb ex.tb) st bs rv1 ⟨some c, .excv c, some [l]⟩ w1
+            exact ⟨vm3, ((hpre2.trans (hno hcf)).trans (hno2 hcf2)).trans hr3, hp3.saved⟩
 theorem sim_all (P : Prims W) (code : Code) : ∀ fuel, SimS P code fuel ∧ SimW P code fuel ∧ SimF P code fuel := by
   intro fuel
   induction fuel with
   | zero =>
     refine ⟨?_, ?_, ?_⟩
-    · intro s w w' o h; simp [execT] at h
-    · intro ln i b o w w' out h; simp [execT] at h
-    · intro ln i hd b o w w' out h; simp [execT] at h
+    · intro s w w' o hd h; simp [execT] at h
+    · intro ln i b o w w' out hd h; simp [execT] at h
+    · intro ln i hnd b o w w' out hd h; simp [execT] at h
   | succ f ih =>
     obtain ⟨ihS, ihW, ihF⟩ := ih
     have hW := sim_while_head P code f ihS ihW
     have hF := sim_for_head P code f ihS ihF
     refine ⟨?_, hW, hF⟩
-    intro s w w' o h hcov ctx pc cur st bs rv ex hce hc hinv
+    intro s w w' o hd h hcov ctx pc cur st bs rv ex hex hce hc hinv
     cases s with
-    | skip => exact sim_simple P code f _ trivial w w' o h ctx pc cur st bs rv ex hce hc
-    | pass ln => exact sim_simple P code f _ trivial w w' o h ctx pc cur st bs rv ex hce hc
-    | ev ln i => exact sim_simple P code f _ trivial w w' o h ctx pc cur st bs rv ex hce hc
-    | ret ln i => exact sim_simple P code f _ trivial w w' o h ctx pc cur st bs rv ex hce hc
-    | raise ln c => exact sim_simple P code f _ trivial w w' o h ctx pc cur st bs rv ex hce hc
-    | brk ln => exact sim_simple P code f _ trivial w w' o h ctx pc cur st bs rv ex hce hc
-    | cont ln => exact sim_simple P code f _ trivial w w' o h ctx pc cur st bs rv ex hce hc
-    | seq a b => exact sim_seq P code f ihS a b w w' o h hcov ctx pc cur st bs rv ex hce hc hinv
-    | ifS ln i b o' => exact sim_if P code f ihS ln i b o' w w' o h hcov ctx pc cur st bs rv ex hce hc hinv
-    | whileS ln i b o' => exact sim_while P code f hW ln i b o' w w' o h hcov ctx pc cur st bs rv ex hce hc hinv
-    | forS ln i b o' => exact sim_for P code f ihF ln i b o' w w' o h hcov ctx pc cur st bs rv ex hce hc hinv
+    | skip => exact sim_simple P code f _ trivial w w' o hd h ctx pc cur st bs rv ex hex hce hc
+    | pass ln => exact sim_simple P code f _ trivial w w' o hd h ctx pc cur st bs rv ex hex hce hc
+    | ev ln i => exact sim_simple P code f _ trivial w w' o hd h ctx pc cur st bs rv ex hex hce hc
+    | ret ln i => exact sim_simple P code f _ trivial w w' o hd h ctx pc cur st bs rv ex hex hce hc
+    | raise ln c => exact sim_simple P code f _ trivial w w' o hd h ctx pc cur st bs rv ex hex hce hc
+    | brk ln => exact sim_simple P code f _ trivial w w' o hd h ctx pc cur st bs rv ex hex hce hc
+    | cont ln => exact sim_simple P code f _ trivial w w' o hd h ctx pc cur st bs rv ex hex hce hc
+    | reraise ln => exact sim_simple P code f _ trivial w w' o hd h ctx pc cur st bs rv ex hex hce hc
+    | raiseX ln fm => exact sim_simple P code f _ trivial w w' o hd h ctx pc cur st bs rv ex hex hce hc
+    | seq a b => exact sim_seq P code f ihS a b w w' o hd h hcov ctx pc cur st bs rv ex hex hce hc hinv
+    | ifS ln i b o' => exact sim_if P code f ihS ln i b o' w w' o hd h hcov ctx pc cur st bs rv ex hex hce hc hinv
+    | whileS ln i b o' => exact sim_while P code f hW ln i b o' w w' o hd h hcov ctx pc cur st bs rv ex hex hce hc hinv
+    | forS ln i b o' => exact sim_for P code f ihF ln i b o' w w' o hd h hcov ctx pc cur st bs rv ex hex hce hc hinv
     | tryF ln b fi =>
       simp only [Cov, Bool.and_eq_true] at hcov
-      exact sim_tryF P code f ihS ln b fi w w' o h hcov.1 hcov.2 ctx pc cur st bs rv ex hce hc hinv
+      exact sim_tryF P code f ihS ln b fi w w' o hd h hcov.1 hcov.2 ctx pc cur st bs rv ex hex hce hc hinv
     | tryE ln b m1 h1 m2 h2 o' =>
       simp only [Cov, Bool.and_eq_true] at hcov
-      exact sim_tryE P code f ihS ln b m1 h1 m2 h2 o' w w' o h hcov.1.1.1 hcov.1.1.2 hcov.1.2 hcov.2 ctx pc cur st bs rv ex hce hc hinv
+      exact sim_tryE P code f ihS ln b m1 h1 m2 h2 o' w w' o hd h hcov.1.1.1 hcov.1.1.2 hcov.1.2 hcov.2 ctx pc cur st bs rv ex hex hce hc hinv
     | withS ln i b =>
       simp only [Cov] at hcov
-      exact sim_with P code f ihS ln i b w w' o h hcov ctx pc cur st bs rv ex hce hc hinv
+      exact sim_with P code f ihS ln i b w w' o hd h hcov ctx pc cur st bs rv ex hex hce hc hinv
 theorem run_of_reach {P : Prims W} {code : Code} {vm vm' : VM W} (h : Reach P code vm vm') :
     ∀ {n : Nat} {e : Exit W}, run P code n vm' = some e → ∃ m, run P code m vm = some e := by
   induction h with
@@ -1907,14 +1990,14 @@ theorem run_of_reach {P : Prims W} {code : Code} {vm vm' : VM W} (h : Reach P co
     exact ⟨m + 1, by simp [run, hs, hm]⟩
 
 /-- a statement list whose last emitted instruction is a `return` cannot complete normally -/
-theorem endsRet_not_normal (P : Prims W) : ∀ (s : Stmt) (prev : Bool) (f : Nat) (w w' : W),
-    endsRet prev s = true → execT P f (.run s) w = some (w', .normal) → prev = true := by
+theorem endsRet_not_normal (P : Prims W) : ∀ (s : Stmt) (prev : Bool) (f : Nat) (w w' : W) (hd : Handled),
+    endsRet prev s = true → execT P f (.run s) w hd = some (w', .normal) → prev = true := by
   intro s
   induction s with
-  | skip => intro prev f w w' h _; simpa [endsRet] using h
-  | pass => intro prev f w w' h _; simpa [endsRet] using h
+  | skip => intro prev f w w' hd h _; simpa [endsRet] using h
+  | pass => intro prev f w w' hd h _; simpa [endsRet] using h
   | ret ln i =>
-    intro prev f w w' _ hx
+    intro prev f w w' hd _ hx
     cases f with
     | zero => simp [execT] at hx
     | succ f =>
@@ -1923,14 +2006,14 @@ theorem endsRet_not_normal (P : Prims W) : ∀ (s : Stmt) (prev : Bool) (f : Nat
       cases hev : P.ev w i with
       | mk w1 r => rw [hev] at hx; cases r <;> simp at hx
   | seq a b iha ihb =>
-    intro prev f w w' h hx
+    intro prev f w w' hd h hx
     cases f with
     | zero => simp [execT] at hx
     | succ f =>
       unfold execT at hx
       simp only at hx
       simp only [endsRet] at h
-      cases ha : execT P f (.run a) w with
+      cases ha : execT P f (.run a) w hd with
       | none => rw [ha] at hx; simp at hx
       | some r =>
         obtain ⟨w1, o1⟩ := r
@@ -1938,9 +2021,9 @@ theorem endsRet_not_normal (P : Prims W) : ∀ (s : Stmt) (prev : Bool) (f : Nat
         cases o1 with
         | normal =>
           simp only at hx
-          exact iha prev f w w1 (ihb _ f w1 w' h hx) ha
+          exact iha prev f w w1 hd (ihb _ f w1 w' hd h hx) ha
         | brk | cont | ret _ | exc _ _ => simp at hx
-  | ev | raise | brk | cont | ifS | whileS | forS | tryF | tryE | withS => intro prev f w w' h _; simp [endsRet] at h
+  | ev | raise | reraise | raiseX | brk | cont | ifS | whileS | forS | tryF | tryE | withS => intro prev f w w' hd h _; simp [endsRet] at h
 
 /-- what `RunFrame` must hand back for each way the function can end -/
 def expectedExit (fin : Final) (w' : W) : Exit W :=
@@ -1961,7 +2044,7 @@ theorem frame_correct_cov (P : Prims W) (defLine : Nat) (body : Stmt) (code : Co
     rw [hce] at hcomp
     simp only [Except.ok.injEq] at hcomp
     unfold execFn execS at hx
-    cases hxs : execT P fuel (.run body) w with
+    cases hxs : execT P fuel (.run body) w none with
     | none => rw [hxs] at hx; simp at hx
     | some r =>
       obtain ⟨w1, o⟩ := r
@@ -1973,15 +2056,15 @@ theorem frame_correct_cov (P : Prims W) (defLine : Nat) (body : Stmt) (code : Co
         · rw [if_pos he] at hcomp; subst hcomp; exact ⟨[], [], by simp, rfl⟩
         · rw [if_neg he] at hcomp; subst hcomp
           exact ⟨[], [(Instr.loadConst .none, endLine defLine body), (Instr.returnValue, endLine defLine body)], by simp, rfl⟩
-      obtain ⟨vm', hr, hp⟩ := (sim_all P code fuel).1 body w w1 o hxs hcov [] 0 defLine [] [] .nil {} hce hcode
+      obtain ⟨vm', hr, hp⟩ := (sim_all P code fuel).1 body w w1 o none hxs hcov [] 0 defLine [] [] .nil {} rfl hce hcode
         (by intro s rest h; simp at h)
       cases o with
       | normal =>
         refine ⟨by simp [Final.ofOutcome], ?_⟩
-        obtain ⟨rv2, ex2, rfl⟩ := hp.normal_eq
+        obtain ⟨rv2, rfl⟩ := hp.normal_eq
         have he : ¬ endsRet false body = true := by
           intro he
-          have := endsRet_not_normal P body false fuel w w1 he hxs
+          have := endsRet_not_normal P body false fuel w w1 none he hxs
           simp at this
         rw [if_neg he] at hcomp
         have hepi : CodeAt code (0 + len body) [(Instr.loadConst .none, endLine defLine body), (Instr.returnValue, endLine defLine body)] := by
@@ -1990,8 +2073,8 @@ theorem frame_correct_cov (P : Prims W) (defLine : Nat) (body : Stmt) (code : Co
         have h0 := hepi.nth 0 (by simp)
         have h1 := hepi.nth 1 (by simp)
         simp only [List.getElem_cons_zero, List.getElem_cons_succ] at h0 h1
-        have hfin : Reach P code ⟨0 + len body, [], [], .not, rv2, {}, ex2, w1⟩
-            ⟨0 + len body + 1 + 1, [], [], .ret, .none, {}, ex2, w1⟩ := by
+        have hfin : Reach P code ⟨0 + len body, [], [], .not, rv2, {}, {}, w1⟩
+            ⟨0 + len body + 1 + 1, [], [], .ret, .none, {}, {}, w1⟩ := by
           vstep h0
           vstep h1
           exact Reach.refl _
@@ -1999,12 +2082,12 @@ theorem frame_correct_cov (P : Prims W) (defLine : Nat) (body : Stmt) (code : Co
           (by simp [run, GPy.C02.step, frameExit, expectedExit, Final.ofOutcome, ExcInfo.isSet])
       | ret v =>
         refine ⟨by simp [Final.ofOutcome], ?_⟩
-        obtain ⟨pc2, junk, ex2, rfl⟩ := hp.ret_eq
+        obtain ⟨pc2, junk, rfl⟩ := hp.ret_eq
         refine run_of_reach hr (n := 1) ?_
         simp [run, GPy.C02.step, frameExit, expectedExit, Final.ofOutcome, ExcInfo.isSet]
       | exc c l =>
         refine ⟨by simp [Final.ofOutcome], ?_⟩
-        obtain ⟨pc2, junk, rv2, ex2, rfl⟩ := hp.exc_eq
+        obtain ⟨pc2, junk, rv2, rfl⟩ := hp.exc_eq
         refine run_of_reach hr (n := 1) ?_
         simp [run, GPy.C02.step, frameExit, expectedExit, Final.ofOutcome, ExcInfo.isSet]
       | brk =>
@@ -2012,13 +2095,13 @@ theorem frame_correct_cov (P : Prims W) (defLine : Nat) (body : Stmt) (code : Co
         simp [hasLoop] at hl
       | cont =>
         simp only [Post, ContAt, findLoop] at hp
-        obtain ⟨_, _, _, _, _, s, hs, _⟩ := hp
+        obtain ⟨_, _, _, _, _, _, s, hs, _⟩ := hp
         simp at hs
 /-- every statement of the fragment is covered -/
 theorem Cov_all : ∀ s : Stmt, Cov s = true := by
   intro s
   induction s with
-  | skip | pass | ev | ret | raise | brk | cont => rfl
+  | skip | pass | ev | ret | raise | brk | cont | reraise | raiseX => rfl
   | seq a b iha ihb => simp [Cov, iha, ihb]
   | ifS ln i b o ihb iho => simp [Cov, ihb, iho]
   | whileS ln i b o ihb iho => simp [Cov, ihb, iho]
